@@ -1,7 +1,9 @@
 (* Lemmas and proofs about Core/Model_Mask.v. *)
 From LanceV Require Import Common.Base Core.Model_Mask.
+From Coq Require Import Sorting.Sorted.
 Local Open Scope N_scope.
 
+(* ------------------------------------------------------------------------------------------ *)
 (* the Rust unit tests of mask.rs, run on the model *)
 Example unit_test_ops :
   let m := all_rows in
@@ -15,3 +17,1773 @@ Example unit_test_ops :
   | _ => False
   end.
 Proof. vm_compute. repeat split; reflexivity. Qed.
+
+(* ------------------------------------------------------------------------------------------ *)
+(* lists as sets: membership equations *)
+
+Lemma eqb_sym_N (a b : N) : (a =? b) = (b =? a).
+Proof. destruct (N.eqb_spec a b), (N.eqb_spec b a); congruence. Qed.
+
+Lemma lmem_cons x y l : lmem x (y :: l) = (x =? y) || lmem x l.
+Proof. reflexivity. Qed.
+
+Lemma lmem_In x l : lmem x l = true <-> In x l.
+Proof.
+  unfold lmem. rewrite existsb_exists. split.
+  - intros [y [Hin He]]. apply N.eqb_eq in He. subst; assumption.
+  - intro H. exists x. split; [assumption | apply N.eqb_refl].
+Qed.
+
+Lemma lmem_false_notin x l : lmem x l = false <-> ~ In x l.
+Proof. rewrite <- lmem_In. destruct (lmem x l); split; intros; try congruence; exfalso; auto. Qed.
+
+Lemma lmem_filter f x l : lmem x (filter f l) = lmem x l && f x.
+Proof.
+  induction l as [|y r IH]; [reflexivity|]. cbn [filter].
+  destruct (f y) eqn:Fy; rewrite ?lmem_cons, IH.
+  - destruct (N.eqb_spec x y) as [E|Hne]; cbn [orb]; [|reflexivity].
+    rewrite E, Fy. reflexivity.
+  - destruct (N.eqb_spec x y) as [E|Hne]; cbn [orb]; [|reflexivity].
+    rewrite E, Fy. rewrite andb_false_r. reflexivity.
+Qed.
+
+Lemma lmem_lins y x l : lmem y (lins x l) = (y =? x) || lmem y l.
+Proof.
+  induction l as [|z r IH]; cbn [lins].
+  - rewrite !lmem_cons. reflexivity.
+  - destruct (x <? z) eqn:H1; [rewrite !lmem_cons; reflexivity|].
+    destruct (N.eqb_spec x z) as [->|Hne].
+    + rewrite lmem_cons. destruct (y =? z); reflexivity.
+    + rewrite !lmem_cons, IH. destruct (y =? x), (y =? z); reflexivity.
+Qed.
+
+Lemma lmem_lrem y x l : lmem y (lrem x l) = lmem y l && negb (y =? x).
+Proof. unfold lrem. rewrite lmem_filter. reflexivity. Qed.
+
+Lemma lmem_lunion y a b : lmem y (lunion a b) = lmem y a || lmem y b.
+Proof.
+  unfold lunion. induction a as [|x r IH]; [reflexivity|].
+  cbn [fold_right]. rewrite lmem_lins, IH, lmem_cons. rewrite orb_assoc. reflexivity.
+Qed.
+
+Lemma lmem_linter y a b : lmem y (linter a b) = lmem y a && lmem y b.
+Proof. unfold linter. apply lmem_filter. Qed.
+
+Lemma lmem_ldiff y a b : lmem y (ldiff a b) = lmem y a && negb (lmem y b).
+Proof. unfold ldiff. apply lmem_filter. Qed.
+
+Lemma lmem_nseq y s n : lmem y (nseq s n) = (s <=? y) && (y <? s + N.of_nat n).
+Proof.
+  revert s. induction n as [|n IH]; intro s.
+  - cbn [nseq lmem existsb]. destruct (s <=? y) eqn:E; [|reflexivity]. cbn. symmetry. apply N.ltb_ge. lia.
+  - cbn [nseq]. rewrite lmem_cons, IH, Nat2N.inj_succ.
+    destruct (N.eqb_spec y s) as [->|Hne].
+    + cbn. symmetry. apply andb_true_iff. split; [apply N.leb_le; lia | apply N.ltb_lt; lia].
+    + cbn. destruct (s + 1 <=? y) eqn:A, (s <=? y) eqn:B, (y <? s + 1 + N.of_nat n) eqn:C, (y <? s + N.succ (N.of_nat n)) eqn:D; try reflexivity; exfalso; lia.
+Qed.
+
+Lemma lmem_nrange y lo hi : lmem y (nrange lo hi) = (lo <=? y) && (y <=? hi).
+Proof.
+  unfold nrange. destruct (hi <? lo) eqn:E.
+  - cbn. destruct (lo <=? y) eqn:A, (y <=? hi) eqn:B; try reflexivity. exfalso; lia.
+  - rewrite lmem_nseq. rewrite N2Nat.id.
+    destruct (lo <=? y) eqn:A; [|reflexivity]. cbn.
+    destruct (y <? lo + (hi - lo + 1)) eqn:B, (y <=? hi) eqn:C; try reflexivity; exfalso; lia.
+Qed.
+
+(* ------------------------------------------------------------------------------------------ *)
+(* strictly increasing lists *)
+
+Definition lsorted (l : list N) : Prop := StronglySorted N.lt l.
+
+Lemma lsorted_nil : lsorted []. Proof. constructor. Qed.
+
+Lemma lsorted_cons_inv x l : lsorted (x :: l) -> lsorted l /\ Forall (N.lt x) l.
+Proof. intro H. inversion H; subst. split; assumption. Qed.
+
+Lemma lsorted_filter f l : lsorted l -> lsorted (filter f l).
+Proof.
+  induction l as [|x r IH]; intro H; [constructor|].
+  apply lsorted_cons_inv in H as [Hr Hx]. cbn [filter]. destruct (f x).
+  - constructor; [apply IH; assumption|].
+    apply Forall_forall. intros y Hy. apply filter_In in Hy as [Hy _].
+    rewrite Forall_forall in Hx. apply Hx; assumption.
+  - apply IH; assumption.
+Qed.
+
+Lemma Forall_filter {A} (P : A -> Prop) f (l : list A) : Forall P l -> Forall P (filter f l).
+Proof.
+  intro H. apply Forall_forall. intros y Hy. apply filter_In in Hy as [Hy _].
+  rewrite Forall_forall in H. auto.
+Qed.
+
+Lemma In_lins y x l : In y (lins x l) <-> y = x \/ In y l.
+Proof.
+  rewrite <- !lmem_In, lmem_lins, orb_true_iff, N.eqb_eq. reflexivity.
+Qed.
+
+Lemma lsorted_lins x l : lsorted l -> lsorted (lins x l).
+Proof.
+  induction l as [|z r IH]; intro H; cbn [lins].
+  - constructor; constructor.
+  - destruct (x <? z) eqn:H1.
+    + apply lsorted_cons_inv in H as H'. destruct H' as [Hr Hz].
+      constructor; [assumption|]. constructor; [lia|].
+      eapply Forall_impl; [|exact Hz]. intros a Ha. cbn in Ha. lia.
+    + destruct (N.eqb_spec x z) as [->|Hne]; [assumption|].
+      apply lsorted_cons_inv in H as [Hr Hz].
+      constructor; [apply IH; assumption|].
+      apply Forall_forall. intros y Hy. apply In_lins in Hy as [->|Hy]; [lia|].
+      rewrite Forall_forall in Hz. apply Hz; assumption.
+Qed.
+
+Lemma Forall_lins (P : N -> Prop) x l : P x -> Forall P l -> Forall P (lins x l).
+Proof.
+  intros Hx Hl. apply Forall_forall. intros y Hy. apply In_lins in Hy as [->|Hy]; [assumption|].
+  rewrite Forall_forall in Hl. auto.
+Qed.
+
+Lemma lsorted_lunion a b : lsorted b -> lsorted (lunion a b).
+Proof. intro H. unfold lunion. induction a as [|x r IH]; [assumption|]. cbn. apply lsorted_lins. assumption. Qed.
+
+Lemma Forall_lunion (P : N -> Prop) a b : Forall P a -> Forall P b -> Forall P (lunion a b).
+Proof.
+  intros Ha Hb. unfold lunion. induction a as [|x r IH]; [assumption|].
+  inversion Ha; subst. cbn. apply Forall_lins; auto.
+Qed.
+
+Lemma Forall_nseq_ge s n : Forall (fun x => s <= x < s + N.of_nat n) (nseq s n).
+Proof.
+  revert s. induction n as [|n IH]; intro s; [constructor|].
+  cbn [nseq]. constructor; [lia|].
+  eapply Forall_impl; [|apply IH]. intros a Ha. cbn in Ha. lia.
+Qed.
+
+Lemma lsorted_nseq s n : lsorted (nseq s n).
+Proof.
+  revert s. induction n as [|n IH]; intro s; [constructor|].
+  cbn [nseq]. constructor; [apply IH|].
+  eapply Forall_impl; [|apply Forall_nseq_ge]. intros a Ha. cbn in Ha. lia.
+Qed.
+
+Lemma lsorted_nrange lo hi : lsorted (nrange lo hi).
+Proof. unfold nrange. destruct (hi <? lo); [constructor | apply lsorted_nseq]. Qed.
+
+Lemma Forall_nrange lo hi : Forall (fun x => lo <= x <= hi) (nrange lo hi).
+Proof.
+  unfold nrange. destruct (hi <? lo) eqn:E; [constructor|].
+  eapply Forall_impl; [|apply Forall_nseq_ge]. intros a Ha. cbn in Ha. lia.
+Qed.
+
+Lemma lsorted_NoDup l : lsorted l -> NoDup l.
+Proof.
+  induction l as [|x r IH]; intro H; [constructor|].
+  apply lsorted_cons_inv in H as [Hr Hx]. constructor; [|auto].
+  intro Hin. rewrite Forall_forall in Hx. specialize (Hx _ Hin). lia.
+Qed.
+
+(* a strictly increasing list inside [a, m) has at most m - a elements, and exactly that many only if
+   it is the whole interval *)
+Lemma lsorted_length_le l : forall a m, lsorted l -> Forall (fun x => a <= x < m) l -> a <= m ->
+  N.of_nat (length l) <= m - a.
+Proof.
+  induction l as [|x r IH]; intros a m Hs Hb Ham; [cbn; lia|].
+  apply lsorted_cons_inv in Hs as [Hr Hx]. inversion Hb as [|? ? Hxb Hrb]; subst.
+  assert (N.of_nat (length r) <= m - (x + 1)).
+  { apply IH; [assumption| |lia].
+    apply Forall_forall. intros y Hy. rewrite Forall_forall in Hx, Hrb.
+    specialize (Hx _ Hy). specialize (Hrb _ Hy). lia. }
+  cbn [length]. lia.
+Qed.
+
+Lemma lsorted_full l : forall a m, lsorted l -> Forall (fun x => a <= x < m) l -> a <= m ->
+  N.of_nat (length l) = m - a -> forall y, a <= y < m -> In y l.
+Proof.
+  induction l as [|x r IH]; intros a m Hs Hb Ham Hlen y Hy; [cbn in Hlen; lia|].
+  apply lsorted_cons_inv in Hs as [Hr Hx]. inversion Hb as [|? ? Hxb Hrb]; subst.
+  assert (Hrb' : Forall (fun z => x + 1 <= z < m) r).
+  { apply Forall_forall. intros z Hz. rewrite Forall_forall in Hx, Hrb.
+    specialize (Hx _ Hz). specialize (Hrb _ Hz). lia. }
+  pose proof (lsorted_length_le r (x + 1) m Hr Hrb' ltac:(lia)) as Hle.
+  cbn [length] in Hlen.
+  assert (x = a) by lia. subst x.
+  destruct (N.eq_dec y a) as [->|Hne]; [left; reflexivity|]. right.
+  apply (IH (a + 1) m); try assumption; lia.
+Qed.
+
+(* ------------------------------------------------------------------------------------------ *)
+(* RoaringBitmap: membership equations (unconditional) *)
+
+Lemma bm_mem_lt b y : bm_mem b y = true -> y < two32.
+Proof. destruct b; cbn [bm_mem]; intro H; apply andb_true_iff in H as [H _]; lia. Qed.
+
+Lemma bm_mem_empty y : bm_mem bm_empty y = false.
+Proof. cbn. apply andb_false_r. Qed.
+
+Lemma bm_mem_full y : bm_mem bm_full y = (y <? two32).
+Proof. cbn. apply andb_true_r. Qed.
+
+Lemma bm_mem_insert x b y :
+  bm_mem (fst (bm_insert x b)) y = ((y <? two32) && (y =? x)) || bm_mem b y.
+Proof.
+  destruct b as [l|l]; cbn [bm_insert fst bm_mem].
+  - rewrite lmem_lins. destruct (y <? two32), (y =? x), (lmem y l); reflexivity.
+  - rewrite lmem_lrem. destruct (y <? two32), (y =? x), (lmem y l); reflexivity.
+Qed.
+
+Lemma bm_insert_changed x b : x < two32 -> snd (bm_insert x b) = negb (bm_mem b x).
+Proof.
+  intro Hx. assert (E : (x <? two32) = true) by (apply N.ltb_lt; lia).
+  destruct b as [l|l]; cbn [bm_insert snd bm_mem]; rewrite E; cbn; [reflexivity|].
+  rewrite negb_involutive. reflexivity.
+Qed.
+
+Lemma bm_mem_remove x b y : bm_mem (fst (bm_remove x b)) y = bm_mem b y && negb (y =? x).
+Proof.
+  destruct b as [l|l]; cbn [bm_remove fst bm_mem].
+  - rewrite lmem_lrem. destruct (y <? two32), (y =? x), (lmem y l); reflexivity.
+  - rewrite lmem_lins. destruct (y <? two32), (y =? x), (lmem y l); reflexivity.
+Qed.
+
+Lemma bm_remove_changed x b : x < two32 -> snd (bm_remove x b) = bm_mem b x.
+Proof.
+  intro Hx. assert (E : (x <? two32) = true) by (apply N.ltb_lt; lia).
+  destruct b as [l|l]; cbn [bm_remove snd bm_mem]; rewrite E; reflexivity.
+Qed.
+
+Lemma bm_mem_insert_range lo hi b y :
+  bm_mem (fst (bm_insert_range lo hi b)) y = bm_mem b y || ((y <? two32) && ((lo <=? y) && (y <=? hi))).
+Proof.
+  destruct b as [l|l]; cbn [bm_insert_range fst bm_mem].
+  - rewrite lmem_lunion, lmem_nrange.
+    destruct (y <? two32), (lmem y l), ((lo <=? y) && (y <=? hi)); reflexivity.
+  - rewrite lmem_ldiff, lmem_nrange.
+    destruct (y <? two32), (lmem y l), ((lo <=? y) && (y <=? hi)); reflexivity.
+Qed.
+
+Lemma bm_mem_union a b y : bm_mem (bm_union a b) y = bm_mem a y || bm_mem b y.
+Proof.
+  destruct a as [x|x], b as [z|z]; cbn [bm_union bm_mem];
+    rewrite ?lmem_lunion, ?lmem_ldiff, ?lmem_linter;
+    destruct (y <? two32), (lmem y x), (lmem y z); reflexivity.
+Qed.
+
+Lemma bm_mem_inter a b y : bm_mem (bm_inter a b) y = bm_mem a y && bm_mem b y.
+Proof.
+  destruct a as [x|x], b as [z|z]; cbn [bm_inter bm_mem];
+    rewrite ?lmem_lunion, ?lmem_ldiff, ?lmem_linter;
+    destruct (y <? two32), (lmem y x), (lmem y z); reflexivity.
+Qed.
+
+Lemma bm_mem_diff a b y : bm_mem (bm_diff a b) y = bm_mem a y && negb (bm_mem b y).
+Proof.
+  destruct a as [x|x], b as [z|z]; cbn [bm_diff bm_mem];
+    rewrite ?lmem_lunion, ?lmem_ldiff, ?lmem_linter;
+    destruct (y <? two32), (lmem y x), (lmem y z); reflexivity.
+Qed.
+
+(* well-formed bitmaps: strictly increasing lists of u32 values *)
+Definition lwf (l : list N) : Prop := lsorted l /\ Forall (fun x => x < two32) l.
+Definition bm_wf (b : bitmap) : Prop := match b with Pos l => lwf l | Neg l => lwf l end.
+
+Lemma lwf_nil : lwf []. Proof. split; constructor. Qed.
+Lemma lwf_lins x l : x < two32 -> lwf l -> lwf (lins x l).
+Proof. intros Hx [H1 H2]. split; [apply lsorted_lins | apply Forall_lins]; assumption. Qed.
+Lemma lwf_filter f l : lwf l -> lwf (filter f l).
+Proof. intros [H1 H2]. split; [apply lsorted_filter | apply Forall_filter]; assumption. Qed.
+Lemma lwf_lunion a b : lwf a -> lwf b -> lwf (lunion a b).
+Proof. intros [H1 H2] [H3 H4]. split; [apply lsorted_lunion | apply Forall_lunion]; assumption. Qed.
+Lemma lwf_nrange lo hi : hi < two32 -> lwf (nrange lo hi).
+Proof.
+  intro H. split; [apply lsorted_nrange|].
+  eapply Forall_impl; [|apply Forall_nrange]. intros a Ha. cbn in Ha. lia.
+Qed.
+
+Lemma bm_wf_empty : bm_wf bm_empty. Proof. exact lwf_nil. Qed.
+Lemma bm_wf_full : bm_wf bm_full. Proof. exact lwf_nil. Qed.
+Lemma bm_wf_insert x b : x < two32 -> bm_wf b -> bm_wf (fst (bm_insert x b)).
+Proof. intros Hx H. destruct b; cbn; [apply lwf_lins | apply lwf_filter]; assumption. Qed.
+Lemma bm_wf_remove x b : x < two32 -> bm_wf b -> bm_wf (fst (bm_remove x b)).
+Proof. intros Hx H. destruct b; cbn; [apply lwf_filter | apply lwf_lins]; assumption. Qed.
+Lemma bm_wf_insert_range lo hi b : hi < two32 -> bm_wf b -> bm_wf (fst (bm_insert_range lo hi b)).
+Proof.
+  intros Hh H. destruct b; cbn; [apply lwf_lunion; [apply lwf_nrange|]| apply lwf_filter]; assumption.
+Qed.
+Lemma bm_wf_union a b : bm_wf a -> bm_wf b -> bm_wf (bm_union a b).
+Proof. intros Ha Hb. destruct a, b; cbn; first [apply lwf_lunion | apply lwf_filter]; assumption. Qed.
+Lemma bm_wf_inter a b : bm_wf a -> bm_wf b -> bm_wf (bm_inter a b).
+Proof. intros Ha Hb. destruct a, b; cbn; first [apply lwf_lunion | apply lwf_filter]; assumption. Qed.
+Lemma bm_wf_diff a b : bm_wf a -> bm_wf b -> bm_wf (bm_diff a b).
+Proof. intros Ha Hb. destruct a, b; cbn; first [apply lwf_lunion | apply lwf_filter]; assumption. Qed.
+
+(* is_empty is exactly "no member" on well-formed bitmaps *)
+Lemma bm_is_empty_spec b : bm_wf b -> (bm_is_empty b = true <-> forall y, bm_mem b y = false).
+Proof.
+  intro Hwf. destruct b as [l|l]; cbn [bm_is_empty bm_mem].
+  - destruct l as [|x r].
+    + split; [intros _ y; apply andb_false_r | reflexivity].
+    + split; [discriminate|]. intro H. specialize (H x).
+      destruct Hwf as [_ Hb]. inversion Hb; subst.
+      rewrite lmem_cons, N.eqb_refl in H. cbn in H.
+      assert ((x <? two32) = true) by (apply N.ltb_lt; lia). rewrite H0 in H. discriminate.
+  - destruct Hwf as [Hs Hb]. split.
+    + intros E y. apply N.eqb_eq in E. unfold llen in E.
+      destruct (y <? two32) eqn:Hy; [|reflexivity]. cbn.
+      assert (In y l).
+      { apply (lsorted_full l 0 two32); try assumption; try lia.
+        eapply Forall_impl; [|exact Hb]. intros a Ha. cbn in Ha. lia. }
+      apply lmem_In in H. rewrite H. reflexivity.
+    + intro H. apply N.eqb_eq. unfold llen.
+      assert (Hle : N.of_nat (length l) <= two32 - 0).
+      { apply lsorted_length_le; try assumption; try lia.
+        eapply Forall_impl; [|exact Hb]. intros a Ha. cbn in Ha. lia. }
+      (* if fewer than 2^32 are missing, some y is present: the complement list is non-empty *)
+      destruct (N.eq_dec (N.of_nat (length l)) two32) as [E|Hne]; [assumption|].
+      exfalso.
+      (* the least value not in l: walk the sorted list *)
+      assert (Hex : forall (l : list N) a, lsorted l -> Forall (fun x => a <= x < two32) l ->
+                 a <= two32 -> N.of_nat (length l) < two32 - a -> exists y, a <= y < two32 /\ ~ In y l).
+      { clear. induction l as [|x r IH]; intros a Hs Hb Ha Hlen.
+        - exists a. split; [cbn in Hlen; lia | intros []].
+        - apply lsorted_cons_inv in Hs as [Hr Hx]. inversion Hb as [|? ? Hxb Hrb]; subst.
+          destruct (N.eq_dec x a) as [->|Hne].
+          + assert (Hrb' : Forall (fun z => a + 1 <= z < two32) r).
+            { apply Forall_forall. intros z Hz. rewrite Forall_forall in Hx, Hrb.
+              specialize (Hx _ Hz). specialize (Hrb _ Hz). lia. }
+            destruct (IH (a + 1) Hr Hrb' ltac:(lia) ltac:(cbn [length] in Hlen; lia)) as [y [Hy Hn]].
+            exists y. split; [lia|]. intros [E|Hin]; [lia | auto].
+          + exists a. split; [lia|]. intros [E|Hin]; [lia|].
+            rewrite Forall_forall in Hx. specialize (Hx _ Hin). lia. }
+      destruct (Hex l 0 Hs) as [y [Hy Hn]]; try lia.
+      { eapply Forall_impl; [|exact Hb]. intros a Ha. cbn in Ha. lia. }
+      specialize (H y). apply lmem_false_notin in Hn. rewrite Hn in H.
+      assert ((y <? two32) = true) by (apply N.ltb_lt; lia). rewrite H0 in H. discriminate.
+Qed.
+
+(* ------------------------------------------------------------------------------------------ *)
+(* BTreeMap as sorted association list *)
+
+Section AMapFacts.
+  Context {V : Type}.
+  Implicit Types (t : list (N * V)).
+
+  Definition keys t : list N := map fst t.
+
+  Lemma aget_aput k v t k' : aget k' (aput k v t) = if k' =? k then Some v else aget k' t.
+  Proof.
+    induction t as [|[k0 v0] r IH]; cbn [aput aget].
+    - reflexivity.
+    - destruct (k <? k0) eqn:L.
+      + cbn [aget]. reflexivity.
+      + destruct (N.eqb_spec k k0) as [->|Hne].
+        * cbn [aget]. destruct (k' =? k0); reflexivity.
+        * cbn [aget]. rewrite IH.
+          destruct (N.eqb_spec k' k0) as [->|H1]; [|reflexivity].
+          destruct (N.eqb_spec k0 k); [congruence | reflexivity].
+  Qed.
+
+  Lemma aget_adel k t k' : aget k' (adel k t) = if k' =? k then None else aget k' t.
+  Proof.
+    unfold adel. induction t as [|[k0 v0] r IH]; cbn [filter aget fst].
+    - destruct (k' =? k); reflexivity.
+    - destruct (N.eqb_spec k0 k) as [->|Hne]; cbn [negb].
+      + rewrite IH. destruct (N.eqb_spec k' k); reflexivity.
+      + cbn [aget]. rewrite IH.
+        destruct (N.eqb_spec k' k0) as [->|H1]; [|reflexivity].
+        destruct (N.eqb_spec k0 k); [congruence | reflexivity].
+  Qed.
+
+  Lemma keys_aput k v t : keys (aput k v t) = lins k (keys t).
+  Proof.
+    unfold keys. induction t as [|[k0 v0] r IH]; cbn [aput map lins fst]; [reflexivity|].
+    destruct (k <? k0); [reflexivity|].
+    destruct (N.eqb_spec k k0) as [->|Hne]; cbn [map fst]; [reflexivity | rewrite IH; reflexivity].
+  Qed.
+
+  Lemma keys_filter_sorted (P : N * V -> bool) t : lsorted (keys t) -> lsorted (keys (filter P t)).
+  Proof.
+    unfold keys. induction t as [|[k0 v0] r IH]; cbn [filter map fst]; intro H; [constructor|].
+    apply lsorted_cons_inv in H as [Hr Hk]. destruct (P (k0, v0)); cbn [map fst]; [|apply IH; assumption].
+    constructor; [apply IH; assumption|].
+    apply Forall_forall. intros y Hy. apply in_map_iff in Hy as [e [<- He]].
+    apply filter_In in He as [He _]. rewrite Forall_forall in Hk. apply Hk. apply in_map. assumption.
+  Qed.
+
+  Lemma aget_none_lt k t : Forall (N.lt k) (keys t) -> aget k t = None.
+  Proof.
+    unfold keys. induction t as [|[k0 v0] r IH]; cbn [map fst aget]; intro H; [reflexivity|].
+    inversion H; subst. destruct (N.eqb_spec k k0); [lia | auto].
+  Qed.
+
+  Lemma aget_In k v t : aget k t = Some v -> In (k, v) t.
+  Proof.
+    induction t as [|[k0 v0] r IH]; cbn [aget]; [discriminate|].
+    destruct (N.eqb_spec k k0) as [->|Hne]; intro H; [left; congruence | right; auto].
+  Qed.
+
+  Lemma In_aput e k v t : In e (aput k v t) -> e = (k, v) \/ In e t.
+  Proof.
+    induction t as [|[k0 v0] r IH]; cbn [aput]; intro H.
+    - destruct H as [<-|[]]. left; reflexivity.
+    - destruct (k <? k0); [destruct H as [<-|H]; [left; reflexivity | right; assumption]|].
+      destruct (k =? k0).
+      + destruct H as [<-|H]; [left; reflexivity | right; right; assumption].
+      + destruct H as [<-|H]; [right; left; reflexivity|].
+        destruct (IH H) as [->|H']; [left; reflexivity | right; right; assumption].
+  Qed.
+
+  Lemma Forall_aput (P : N * V -> Prop) k v t : P (k, v) -> Forall P t -> Forall P (aput k v t).
+  Proof.
+    intros Hk Ht. apply Forall_forall. intros e He. apply In_aput in He as [->|He]; [assumption|].
+    rewrite Forall_forall in Ht. auto.
+  Qed.
+
+  Lemma aget_filter (P : N * V -> bool) t k : lsorted (keys t) ->
+    aget k (filter P t) = match aget k t with Some v => if P (k, v) then Some v else None | None => None end.
+  Proof.
+    unfold keys. induction t as [|[k0 v0] r IH]; cbn [filter aget map fst]; intro H; [reflexivity|].
+    apply lsorted_cons_inv in H as [Hr Hk].
+    destruct (N.eqb_spec k k0) as [->|Hne].
+    - destruct (P (k0, v0)) eqn:E; cbn [aget]; [rewrite N.eqb_refl; reflexivity|].
+      rewrite IH by assumption. rewrite (aget_none_lt k0 r Hk). reflexivity.
+    - destruct (P (k0, v0)); cbn [aget]; [destruct (N.eqb_spec k k0); [congruence|]|]; auto.
+  Qed.
+End AMapFacts.
+
+Lemma aget_map {V W} (h : N -> V -> W) (t : list (N * V)) f :
+  aget f (map (fun e => (fst e, h (fst e) (snd e))) t) = option_map (h f) (aget f t).
+Proof.
+  induction t as [|[k0 v0] r IH]; cbn [map aget fst snd]; [reflexivity|].
+  destruct (N.eqb_spec f k0) as [->|Hne]; [reflexivity | exact IH].
+Qed.
+
+Lemma keys_map {V W} (h : N -> V -> W) (t : list (N * V)) :
+  keys (map (fun e => (fst e, h (fst e) (snd e))) t) = keys t.
+Proof. unfold keys. rewrite map_map. cbn [fst]. reflexivity. Qed.
+
+(* ------------------------------------------------------------------------------------------ *)
+(* RowIdTreeMap: well-formedness and membership *)
+
+Definition sel_wf (s : sel) : Prop := match s with Full => True | Partial b => bm_wf b end.
+Definition entry_wf (e : N * sel) : Prop := fst e < two32 /\ sel_wf (snd e).
+Definition tm_wf (t : treemap) : Prop := lsorted (keys t) /\ Forall entry_wf t.
+
+Definition sel_has (s : option sel) (o : N) : bool :=
+  match s with None => false | Some Full => true | Some (Partial b) => bm_mem b o end.
+
+Lemma tm_contains_has t v : tm_contains t v = sel_has (aget (hi32 v) t) (lo32 v).
+Proof. reflexivity. Qed.
+
+Lemma hi32_lt v : hi32 v < two32.
+Proof. unfold hi32, wrap32. apply N.mod_lt. discriminate. Qed.
+Lemma lo32_lt v : lo32 v < two32.
+Proof. unfold lo32, wrap32. apply N.mod_lt. discriminate. Qed.
+
+Lemma tm_wf_nil : tm_wf []. Proof. split; constructor. Qed.
+
+Lemma tm_wf_aput k s t : k < two32 -> sel_wf s -> tm_wf t -> tm_wf (aput k s t).
+Proof.
+  intros Hk Hs [H1 H2]. split.
+  - rewrite keys_aput. apply lsorted_lins. assumption.
+  - apply Forall_aput; [split; assumption | assumption].
+Qed.
+
+Lemma tm_wf_filter P t : tm_wf t -> tm_wf (filter P t).
+Proof. intros [H1 H2]. split; [apply keys_filter_sorted | apply Forall_filter]; assumption. Qed.
+
+Lemma tm_wf_adel k t : tm_wf t -> tm_wf (adel k t).
+Proof. apply tm_wf_filter. Qed.
+
+Lemma tm_wf_aget t k s : tm_wf t -> aget k t = Some s -> k < two32 /\ sel_wf s.
+Proof.
+  intros [_ H2] H. apply aget_In in H. rewrite Forall_forall in H2. apply (H2 _ H).
+Qed.
+
+Lemma tm_wf_tail e t : tm_wf (e :: t) -> tm_wf t /\ entry_wf e /\ aget (fst e) t = None.
+Proof.
+  intros [H1 H2]. unfold keys in H1. cbn [map] in H1. apply lsorted_cons_inv in H1 as [Hr Hk].
+  inversion H2 as [|? ? He Ht]; subst. split; [split; assumption|]. split; [exact He|].
+  apply aget_none_lt. exact Hk.
+Qed.
+
+(* ---- insert / remove / extend ---- *)
+Lemma tm_insert_contains v t x :
+  tm_contains (fst (tm_insert v t)) x = ((hi32 x =? hi32 v) && (lo32 x =? lo32 v)) || tm_contains t x.
+Proof.
+  rewrite !tm_contains_has. unfold tm_insert.
+  pose proof (lo32_lt x) as Hx. assert (Ex : (lo32 x <? two32) = true) by (apply N.ltb_lt; lia).
+  destruct (aget (hi32 v) t) as [[|b]|] eqn:E; cbn [fst].
+  - destruct (N.eqb_spec (hi32 x) (hi32 v)) as [->|Hne]; [rewrite E; cbn; destruct (lo32 x =? lo32 v); reflexivity | reflexivity].
+  - destruct (bm_insert (lo32 v) b) as [b' ch] eqn:Eb. cbn [fst]. rewrite aget_aput.
+    destruct (N.eqb_spec (hi32 x) (hi32 v)) as [->|Hne]; [|reflexivity].
+    rewrite E. cbn [sel_has andb]. replace b' with (fst (bm_insert (lo32 v) b)) by (rewrite Eb; reflexivity).
+    rewrite bm_mem_insert, Ex. destruct (lo32 x =? lo32 v), (bm_mem b (lo32 x)); reflexivity.
+  - rewrite aget_aput.
+    destruct (N.eqb_spec (hi32 x) (hi32 v)) as [->|Hne]; [|reflexivity].
+    rewrite E. cbn [sel_has andb]. rewrite bm_mem_insert, Ex, bm_mem_empty. destruct (lo32 x =? lo32 v); reflexivity.
+Qed.
+
+Lemma tm_insert_ret v t : snd (tm_insert v t) = negb (tm_contains t v).
+Proof.
+  rewrite tm_contains_has. unfold tm_insert.
+  destruct (aget (hi32 v) t) as [[|b]|] eqn:E; cbn [snd sel_has]; try reflexivity.
+  destruct (bm_insert (lo32 v) b) as [b' ch] eqn:Eb. cbn [snd].
+  replace ch with (snd (bm_insert (lo32 v) b)) by (rewrite Eb; reflexivity).
+  apply bm_insert_changed. apply lo32_lt.
+Qed.
+
+Lemma tm_insert_wf v t : tm_wf t -> tm_wf (fst (tm_insert v t)).
+Proof.
+  intro H. unfold tm_insert. destruct (aget (hi32 v) t) as [[|b]|] eqn:E; cbn [fst].
+  - assumption.
+  - destruct (bm_insert (lo32 v) b) as [b' ch] eqn:Eb. cbn [fst].
+    apply tm_wf_aput; [apply hi32_lt| |assumption].
+    replace b' with (fst (bm_insert (lo32 v) b)) by (rewrite Eb; reflexivity).
+    apply bm_wf_insert; [apply lo32_lt|]. apply (tm_wf_aget _ _ _ H E).
+  - apply tm_wf_aput; [apply hi32_lt| |assumption]. apply bm_wf_insert; [apply lo32_lt | apply bm_wf_empty].
+Qed.
+
+Lemma tm_remove_contains v t x : tm_wf t ->
+  tm_contains (fst (tm_remove v t)) x = tm_contains t x && negb ((hi32 x =? hi32 v) && (lo32 x =? lo32 v)).
+Proof.
+  intro Hwf. rewrite !tm_contains_has. unfold tm_remove.
+  pose proof (lo32_lt x) as Hx. assert (Ex : (lo32 x <? two32) = true) by (apply N.ltb_lt; lia).
+  destruct (aget (hi32 v) t) as [[|b]|] eqn:E; cbn [fst].
+  - rewrite aget_aput.
+    destruct (N.eqb_spec (hi32 x) (hi32 v)) as [->|Hne]; [|cbn; rewrite andb_true_r; reflexivity].
+    rewrite E. cbn [sel_has andb]. rewrite bm_mem_remove, bm_mem_full, Ex. reflexivity.
+  - destruct (bm_remove (lo32 v) b) as [b' rm] eqn:Eb.
+    assert (Hb' : b' = fst (bm_remove (lo32 v) b)) by (rewrite Eb; reflexivity).
+    assert (Hwb' : bm_wf b').
+    { rewrite Hb'. apply bm_wf_remove; [apply lo32_lt|]. apply (tm_wf_aget _ _ _ Hwf E). }
+    destruct (bm_is_empty b') eqn:Em; cbn [fst].
+    + rewrite aget_adel.
+      destruct (N.eqb_spec (hi32 x) (hi32 v)) as [->|Hne]; [|cbn; rewrite andb_true_r; reflexivity].
+      rewrite E. cbn [sel_has andb].
+      pose proof (proj1 (bm_is_empty_spec _ Hwb') Em (lo32 x)) as Em'.
+      rewrite Hb', bm_mem_remove in Em'. symmetry. exact Em'.
+    + rewrite aget_aput.
+      destruct (N.eqb_spec (hi32 x) (hi32 v)) as [->|Hne]; [|cbn; rewrite andb_true_r; reflexivity].
+      rewrite E. cbn [sel_has andb]. rewrite Hb', bm_mem_remove. reflexivity.
+  - destruct (N.eqb_spec (hi32 x) (hi32 v)) as [->|Hne]; [rewrite E; reflexivity | cbn; rewrite andb_true_r; reflexivity].
+Qed.
+
+Lemma tm_remove_ret v t : snd (tm_remove v t) = tm_contains t v.
+Proof.
+  rewrite tm_contains_has. unfold tm_remove.
+  destruct (aget (hi32 v) t) as [[|b]|] eqn:E; cbn [snd sel_has]; try reflexivity.
+  destruct (bm_remove (lo32 v) b) as [b' rm] eqn:Eb.
+  assert (rm = snd (bm_remove (lo32 v) b)) by (rewrite Eb; reflexivity).
+  destruct (bm_is_empty b'); cbn [snd]; subst rm; apply bm_remove_changed; apply lo32_lt.
+Qed.
+
+Lemma tm_remove_wf v t : tm_wf t -> tm_wf (fst (tm_remove v t)).
+Proof.
+  intro H. unfold tm_remove. destruct (aget (hi32 v) t) as [[|b]|] eqn:E; cbn [fst].
+  - apply tm_wf_aput; [apply hi32_lt| |assumption]. apply bm_wf_remove; [apply lo32_lt | apply bm_wf_full].
+  - destruct (bm_remove (lo32 v) b) as [b' rm] eqn:Eb.
+    destruct (bm_is_empty b'); cbn [fst]; [apply tm_wf_adel; assumption|].
+    apply tm_wf_aput; [apply hi32_lt| |assumption].
+    replace b' with (fst (bm_remove (lo32 v) b)) by (rewrite Eb; reflexivity).
+    apply bm_wf_remove; [apply lo32_lt|]. apply (tm_wf_aget _ _ _ H E).
+  - assumption.
+Qed.
+
+Lemma extend_step_is_insert t v : extend_step t v = fst (tm_insert v t).
+Proof.
+  unfold extend_step, tm_insert. destruct (aget (hi32 v) t) as [[|b]|]; cbn [fst]; try reflexivity.
+  destruct (bm_insert (lo32 v) b); reflexivity.
+Qed.
+
+Lemma tm_extend_contains vs : forall t x,
+  tm_contains (tm_extend t vs) x = tm_contains t x || existsb (fun v => (hi32 x =? hi32 v) && (lo32 x =? lo32 v)) vs.
+Proof.
+  unfold tm_extend. induction vs as [|v r IH]; intros t x; cbn [fold_left existsb].
+  - rewrite orb_false_r. reflexivity.
+  - rewrite IH, extend_step_is_insert, tm_insert_contains.
+    destruct (tm_contains t x), ((hi32 x =? hi32 v) && (lo32 x =? lo32 v)); reflexivity.
+Qed.
+
+Lemma tm_extend_wf vs : forall t, tm_wf t -> tm_wf (tm_extend t vs).
+Proof.
+  unfold tm_extend. induction vs as [|v r IH]; intros t H; cbn [fold_left]; [assumption|].
+  apply IH. rewrite extend_step_is_insert. apply tm_insert_wf. assumption.
+Qed.
+
+(* (hi32, lo32) identifies a u64 *)
+Lemma split64 v : v < two64 -> v = hi32 v * two32 + lo32 v.
+Proof.
+  intro H. unfold hi32, lo32, wrap32.
+  assert (v / two32 < two32).
+  { apply N.div_lt_upper_bound; [discriminate|]. change (two32 * two32) with two64. assumption. }
+  rewrite (N.mod_small (v / two32)) by assumption.
+  rewrite N.mul_comm. apply N.div_mod. discriminate.
+Qed.
+
+Lemma same_parts_eq x v : x < two64 -> v < two64 ->
+  ((hi32 x =? hi32 v) && (lo32 x =? lo32 v)) = (x =? v).
+Proof.
+  intros Hx Hv. destruct (N.eqb_spec x v) as [->|Hne].
+  - rewrite !N.eqb_refl. reflexivity.
+  - destruct (N.eqb_spec (hi32 x) (hi32 v)) as [E1|]; [|reflexivity].
+    destruct (N.eqb_spec (lo32 x) (lo32 v)) as [E2|]; [|reflexivity].
+    exfalso. apply Hne. rewrite (split64 x Hx), (split64 v Hv), E1, E2. reflexivity.
+Qed.
+
+(* ------------------------------------------------------------------------------------------ *)
+(* |=, -=, &= entry by entry *)
+
+Definition sel_or (l : option sel) (rs : sel) : sel :=
+  match l with
+  | Some Full => Full
+  | Some (Partial lb) => match rs with Full => Full | Partial rb => Partial (bm_union lb rb) end
+  | None => rs
+  end.
+
+Lemma or_step_get acc k rs f :
+  aget f (or_step acc (k, rs)) = if f =? k then Some (sel_or (aget k acc) rs) else aget f acc.
+Proof.
+  unfold or_step. destruct (aget k acc) as [[|lb]|] eqn:E; cbn [sel_or].
+  - destruct (N.eqb_spec f k) as [->|]; [exact E | reflexivity].
+  - destruct rs; apply aget_aput.
+  - apply aget_aput.
+Qed.
+
+Lemma sel_has_or l rs o : sel_has (Some (sel_or l rs)) o = sel_has l o || sel_has (Some rs) o.
+Proof.
+  destruct l as [[|lb]|], rs as [|rb]; cbn [sel_or sel_has]; rewrite ?bm_mem_union, ?orb_true_r; reflexivity.
+Qed.
+
+Lemma sel_or_wf l rs : match l with Some s => sel_wf s | None => True end -> sel_wf rs -> sel_wf (sel_or l rs).
+Proof.
+  destruct l as [[|lb]|], rs as [|rb]; cbn [sel_or sel_wf]; intros; auto. apply bm_wf_union; assumption.
+Qed.
+
+Lemma or_step_wf acc k rs : tm_wf acc -> k < two32 -> sel_wf rs -> tm_wf (or_step acc (k, rs)).
+Proof.
+  intros Ha Hk Hr. unfold or_step. destruct (aget k acc) as [[|lb]|] eqn:E.
+  - assumption.
+  - destruct rs as [|rb].
+    + apply tm_wf_aput; assumption.
+    + apply tm_wf_aput; try assumption. cbn [sel_wf].
+      apply bm_wf_union; [apply (tm_wf_aget _ _ _ Ha E) | assumption].
+  - apply tm_wf_aput; assumption.
+Qed.
+
+Lemma fold_or_get b : forall a f, lsorted (keys b) ->
+  aget f (fold_left or_step b a) = match aget f b with None => aget f a | Some rs => Some (sel_or (aget f a) rs) end.
+Proof.
+  induction b as [|[k rs] r IH]; intros a f Hs; cbn [fold_left aget]; [reflexivity|].
+  unfold keys in Hs. cbn [map fst] in Hs. apply lsorted_cons_inv in Hs as [Hr Hk].
+  rewrite IH by exact Hr. rewrite !or_step_get.
+  destruct (N.eqb_spec f k) as [->|Hne]; [|reflexivity].
+  rewrite (aget_none_lt k r Hk). reflexivity.
+Qed.
+
+Lemma fold_or_wf b : forall a, tm_wf a -> Forall entry_wf b -> tm_wf (fold_left or_step b a).
+Proof.
+  induction b as [|[k rs] r IH]; intros a Ha Hb; cbn [fold_left]; [assumption|].
+  inversion Hb as [|? ? [H1 H2] Hr]; subst. apply IH; [|assumption]. apply or_step_wf; assumption.
+Qed.
+
+Lemma tm_or_contains a b x : tm_wf b -> tm_contains (tm_or a b) x = tm_contains a x || tm_contains b x.
+Proof.
+  intros [Hs _]. rewrite !tm_contains_has. unfold tm_or. rewrite fold_or_get by exact Hs.
+  destruct (aget (hi32 x) b) as [rs|]; [apply sel_has_or | cbn; rewrite orb_false_r; reflexivity].
+Qed.
+
+Lemma tm_or_wf a b : tm_wf a -> tm_wf b -> tm_wf (tm_or a b).
+Proof. intros Ha [_ Hb]. apply fold_or_wf; assumption. Qed.
+
+(* ---- subtraction ---- *)
+Definition sel_sub (ls rs : sel) : option sel :=
+  match rs with
+  | Full => None
+  | Partial rb =>
+    match ls with
+    | Full => Some (Partial (bm_diff bm_full rb))
+    | Partial lb => let b' := bm_diff lb rb in if bm_is_empty b' then None else Some (Partial b')
+    end
+  end.
+
+Lemma sub_step_get acc k rs f :
+  aget f (sub_step acc (k, rs)) =
+  if f =? k then match aget k acc with None => None | Some ls => sel_sub ls rs end else aget f acc.
+Proof.
+  unfold sub_step. destruct (aget k acc) as [[|lb]|] eqn:E.
+  - destruct rs as [|rb]; cbn [sel_sub]; [apply aget_adel | apply aget_aput].
+  - destruct rs as [|rb]; cbn [sel_sub]; [apply aget_adel|]. cbv zeta.
+    destruct (bm_is_empty (bm_diff lb rb)); [apply aget_adel | apply aget_aput].
+  - destruct (N.eqb_spec f k) as [->|]; [exact E | reflexivity].
+Qed.
+
+Lemma sel_has_sub ls rs o : sel_wf ls -> sel_wf rs -> o < two32 ->
+  sel_has (sel_sub ls rs) o = sel_has (Some ls) o && negb (sel_has (Some rs) o).
+Proof.
+  intros Hl Hr Ho. assert (Eo : (o <? two32) = true) by (apply N.ltb_lt; lia).
+  destruct rs as [|rb]; cbn [sel_sub sel_has].
+  - rewrite andb_false_r. reflexivity.
+  - destruct ls as [|lb]; cbn [sel_has].
+    + rewrite bm_mem_diff, bm_mem_full, Eo. reflexivity.
+    + cbn zeta. destruct (bm_is_empty (bm_diff lb rb)) eqn:Em; cbn [sel_has].
+      * assert (Hw : bm_wf (bm_diff lb rb)) by (apply bm_wf_diff; assumption).
+        pose proof (proj1 (bm_is_empty_spec _ Hw) Em o) as Hm. rewrite bm_mem_diff in Hm. symmetry; exact Hm.
+      * apply bm_mem_diff.
+Qed.
+
+Lemma sel_sub_wf ls rs s : sel_wf ls -> sel_wf rs -> sel_sub ls rs = Some s -> sel_wf s.
+Proof.
+  intros Hl Hr. destruct rs as [|rb]; [discriminate|].
+  destruct ls as [|lb].
+  - change (Some (Partial (bm_diff bm_full rb)) = Some s -> sel_wf s).
+    intros [= <-]. change (bm_wf (bm_diff bm_full rb)). apply bm_wf_diff; [apply bm_wf_full | exact Hr].
+  - change ((if bm_is_empty (bm_diff lb rb) then None else Some (Partial (bm_diff lb rb))) = Some s -> sel_wf s).
+    destruct (bm_is_empty (bm_diff lb rb)); [discriminate|].
+    intros [= <-]. change (bm_wf (bm_diff lb rb)). apply bm_wf_diff; assumption.
+Qed.
+
+Lemma sub_step_wf acc k rs : tm_wf acc -> k < two32 -> sel_wf rs -> tm_wf (sub_step acc (k, rs)).
+Proof.
+  intros Ha Hk Hr. unfold sub_step. destruct (aget k acc) as [[|lb]|] eqn:E.
+  - destruct rs as [|rb]; [apply tm_wf_adel; assumption|].
+    apply tm_wf_aput; try assumption. cbn [sel_wf]. apply bm_wf_diff; [apply bm_wf_full | assumption].
+  - destruct rs as [|rb]; [apply tm_wf_adel; assumption|]. cbn zeta.
+    destruct (bm_is_empty (bm_diff lb rb)); [apply tm_wf_adel; assumption|].
+    apply tm_wf_aput; try assumption. cbn [sel_wf]. apply bm_wf_diff; [apply (tm_wf_aget _ _ _ Ha E) | assumption].
+  - assumption.
+Qed.
+
+Lemma fold_sub_get b : forall a f, lsorted (keys b) ->
+  aget f (fold_left sub_step b a) =
+  match aget f b with
+  | None => aget f a
+  | Some rs => match aget f a with None => None | Some ls => sel_sub ls rs end
+  end.
+Proof.
+  induction b as [|[k rs] r IH]; intros a f Hs; cbn [fold_left aget]; [reflexivity|].
+  unfold keys in Hs. cbn [map fst] in Hs. apply lsorted_cons_inv in Hs as [Hr Hk].
+  rewrite IH by exact Hr. rewrite !sub_step_get.
+  destruct (N.eqb_spec f k) as [->|Hne]; [|reflexivity].
+  rewrite (aget_none_lt k r Hk). reflexivity.
+Qed.
+
+Lemma fold_sub_wf b : forall a, tm_wf a -> Forall entry_wf b -> tm_wf (fold_left sub_step b a).
+Proof.
+  induction b as [|[k rs] r IH]; intros a Ha Hb; cbn [fold_left]; [assumption|].
+  inversion Hb as [|? ? [H1 H2] Hr]; subst. apply IH; [|assumption]. apply sub_step_wf; assumption.
+Qed.
+
+Lemma tm_sub_contains a b x : tm_wf a -> tm_wf b ->
+  tm_contains (tm_sub a b) x = tm_contains a x && negb (tm_contains b x).
+Proof.
+  intros Ha Hb. rewrite !tm_contains_has. unfold tm_sub. rewrite fold_sub_get by (apply Hb).
+  destruct (aget (hi32 x) b) as [rs|] eqn:Eb; [|cbn; rewrite andb_true_r; reflexivity].
+  destruct (aget (hi32 x) a) as [ls|] eqn:Ea; [|reflexivity].
+  apply sel_has_sub; [apply (tm_wf_aget _ _ _ Ha Ea) | apply (tm_wf_aget _ _ _ Hb Eb) | apply lo32_lt].
+Qed.
+
+Lemma tm_sub_wf a b : tm_wf a -> tm_wf b -> tm_wf (tm_sub a b).
+Proof. intros Ha [_ Hb]. apply fold_sub_wf; assumption. Qed.
+
+(* ---- intersection ---- *)
+Definition sel_and (ls rs : sel) : sel :=
+  match rs with
+  | Full => ls
+  | Partial rb => match ls with Partial lb => Partial (bm_inter lb rb) | Full => Partial rb end
+  end.
+Definition and_val (b : treemap) (f : N) (ls : sel) : sel :=
+  match aget f b with None => ls | Some rs => sel_and ls rs end.
+
+Lemma and_entry_eq b e : and_entry b e = (fst e, and_val b (fst e) (snd e)).
+Proof.
+  destruct e as [f ls]. unfold and_entry, and_val. cbn [fst snd].
+  destruct ls as [|lb], (aget f b) as [[|rb]|]; reflexivity.
+Qed.
+
+Lemma sel_has_and ls rs o : sel_has (Some (sel_and ls rs)) o = sel_has (Some ls) o && sel_has (Some rs) o.
+Proof.
+  destruct ls as [|lb], rs as [|rb]; cbn [sel_and sel_has]; rewrite ?bm_mem_inter, ?andb_true_r; reflexivity.
+Qed.
+
+Lemma sel_and_wf ls rs : sel_wf ls -> sel_wf rs -> sel_wf (sel_and ls rs).
+Proof. destruct ls, rs; cbn [sel_and sel_wf]; intros; auto. apply bm_wf_inter; assumption. Qed.
+
+Lemma sel_nonempty_spec s : sel_wf s -> sel_nonempty s = false -> forall o, sel_has (Some s) o = false.
+Proof.
+  destruct s as [|b]; cbn [sel_nonempty sel_has sel_wf]; [discriminate|].
+  intros Hw H o. apply negb_false_iff in H. apply (proj1 (bm_is_empty_spec _ Hw) H).
+Qed.
+
+Lemma tm_and_get a b f : lsorted (keys a) ->
+  aget f (tm_and a b) =
+  match aget f a with
+  | None => None
+  | Some ls => match aget f b with
+               | None => None
+               | Some rs => if sel_nonempty (sel_and ls rs) then Some (sel_and ls rs) else None
+               end
+  end.
+Proof.
+  intro Hs. unfold tm_and.
+  set (P1 := fun e : N * sel => match aget (fst e) b with Some _ => true | None => false end).
+  assert (Hm : map (and_entry b) (filter P1 a) = map (fun e => (fst e, and_val b (fst e) (snd e))) (filter P1 a)).
+  { apply map_ext. intro e. apply and_entry_eq. }
+  rewrite Hm. rewrite aget_filter.
+  2:{ rewrite keys_map. apply keys_filter_sorted. exact Hs. }
+  rewrite aget_map, aget_filter by exact Hs.
+  destruct (aget f a) as [ls|]; [|reflexivity].
+  unfold P1. cbn [fst snd]. unfold and_val.
+  destruct (aget f b) as [rs|]; reflexivity.
+Qed.
+
+Lemma tm_and_contains a b x : tm_wf a -> tm_wf b ->
+  tm_contains (tm_and a b) x = tm_contains a x && tm_contains b x.
+Proof.
+  intros Ha Hb. rewrite !tm_contains_has. rewrite tm_and_get by (apply Ha).
+  destruct (aget (hi32 x) a) as [ls|] eqn:Ea; [|reflexivity].
+  destruct (aget (hi32 x) b) as [rs|] eqn:Eb; [|cbn; rewrite andb_false_r; reflexivity].
+  destruct (sel_nonempty (sel_and ls rs)) eqn:En.
+  - apply sel_has_and.
+  - rewrite <- sel_has_and. symmetry. apply sel_nonempty_spec; [|exact En].
+    apply sel_and_wf; [apply (tm_wf_aget _ _ _ Ha Ea) | apply (tm_wf_aget _ _ _ Hb Eb)].
+Qed.
+
+Lemma tm_and_wf a b : tm_wf a -> tm_wf b -> tm_wf (tm_and a b).
+Proof.
+  intros Ha Hb. unfold tm_and. apply tm_wf_filter.
+  destruct (tm_wf_filter (fun e => match aget (fst e) b with Some _ => true | None => false end) a Ha) as [H1 H2].
+  split.
+  - rewrite (map_ext _ _ (and_entry_eq b)). rewrite keys_map. exact H1.
+  - apply Forall_forall. intros e He. apply in_map_iff in He as [e0 [<- He0]].
+    rewrite Forall_forall in H2. destruct (H2 _ He0) as [Hk Hw].
+    rewrite and_entry_eq. split; [exact Hk|]. cbn [snd]. unfold and_val.
+    destruct (aget (fst e0) b) as [rs|] eqn:Eb; [|exact Hw].
+    apply sel_and_wf; [exact Hw | apply (tm_wf_aget _ _ _ Hb Eb)].
+Qed.
+
+(* ---- mask(), retain_fragments, insert_bitmap, insert_fragment ---- *)
+Lemma tm_insert_fragment_contains f t x :
+  tm_contains (tm_insert_fragment f t) x = (hi32 x =? f) || tm_contains t x.
+Proof.
+  rewrite !tm_contains_has. unfold tm_insert_fragment. rewrite aget_aput.
+  destruct (hi32 x =? f); reflexivity.
+Qed.
+
+Lemma tm_insert_bitmap_contains f b t x :
+  tm_contains (tm_insert_bitmap f b t) x = if hi32 x =? f then bm_mem b (lo32 x) else tm_contains t x.
+Proof.
+  rewrite !tm_contains_has. unfold tm_insert_bitmap. rewrite aget_aput.
+  destruct (hi32 x =? f); reflexivity.
+Qed.
+
+Lemma tm_retain_contains fs t x : tm_wf t ->
+  tm_contains (tm_retain_fragments fs t) x = tm_contains t x && lmem (hi32 x) fs.
+Proof.
+  intros [Hs _]. rewrite !tm_contains_has. unfold tm_retain_fragments. rewrite aget_filter by exact Hs.
+  destruct (aget (hi32 x) t) as [s|]; [|reflexivity]. cbn [fst].
+  destruct (lmem (hi32 x) fs); [rewrite andb_true_r | rewrite andb_false_r]; reflexivity.
+Qed.
+
+(* ------------------------------------------------------------------------------------------ *)
+(* RowIdMask *)
+
+Definition owf (o : option treemap) : Prop := match o with Some t => tm_wf t | None => True end.
+Definition mask_wf (m : mask) : Prop := owf (allow m) /\ owf (block m).
+
+Ltac wf := repeat first [assumption | apply tm_or_wf | apply tm_and_wf | apply tm_sub_wf | apply tm_wf_nil | exact I].
+Ltac sem := repeat first [rewrite tm_or_contains by wf | rewrite tm_and_contains by wf | rewrite tm_sub_contains by wf].
+Ltac btaut :=
+  repeat match goal with |- context [tm_contains ?t ?x] => destruct (tm_contains t x) end; reflexivity.
+Ltac mask_cases m H :=
+  destruct m as [[?a|] [?b|]]; cbn [mask_wf owf allow block] in H; destruct H as [? ?].
+
+Lemma tm_contains_nil x : tm_contains tm_new x = false.
+Proof. reflexivity. Qed.
+
+Lemma normalize_selected m x : mask_wf m -> selected (normalize m) x = selected m x.
+Proof.
+  intro H. mask_cases m H; unfold normalize, selected; cbn [allow block]; sem; btaut.
+Qed.
+
+Lemma normalize_wf m : mask_wf m -> mask_wf (normalize m).
+Proof.
+  intro H. mask_cases m H; unfold normalize; cbn [allow block]; split; cbn [allow block owf]; wf.
+Qed.
+
+Lemma mnot_selected m x : mask_wf m -> selected (mnot m) x = negb (selected m x).
+Proof.
+  intro H. mask_cases m H; unfold mnot, normalize, selected, allow_nothing; cbn [allow block];
+    rewrite ?tm_contains_nil; sem; btaut.
+Qed.
+
+Lemma mnot_wf m : mask_wf m -> mask_wf (mnot m).
+Proof.
+  intro H. mask_cases m H; unfold mnot, normalize, allow_nothing; cbn [allow block]; split; cbn [allow block owf]; wf.
+Qed.
+
+Lemma mand_selected l r x : mask_wf l -> mask_wf r -> selected (mand l r) x = selected l x && selected r x.
+Proof.
+  intros Hl Hr. mask_cases l Hl; mask_cases r Hr; unfold mand, selected; cbn [allow block]; sem; btaut.
+Qed.
+
+Lemma mand_wf l r : mask_wf l -> mask_wf r -> mask_wf (mand l r).
+Proof.
+  intros Hl Hr. mask_cases l Hl; mask_cases r Hr; unfold mand; cbn [allow block]; split; cbn [allow block owf]; wf.
+Qed.
+
+Lemma mor_spec l r : mask_wf l -> mask_wf r ->
+  exists m, mor l r = Ok m /\ mask_wf m /\ forall x, selected m x = selected l x || selected r x.
+Proof.
+  intros Hl Hr. mask_cases l Hl; mask_cases r Hr; unfold mor, normalize; cbn [allow block];
+    eexists; (split; [reflexivity|]); (split; [split; cbn [allow block owf]; wf|]);
+    intro x; unfold selected; cbn [allow block]; sem; btaut.
+Qed.
+
+Lemma also_block_selected m b x : mask_wf m -> tm_wf b ->
+  selected (also_block m b) x = selected m x && negb (tm_contains b x).
+Proof.
+  intros H Hb. unfold also_block. destruct b as [|e b'] eqn:Eb; cbn [tm_is_empty].
+  - change (tm_contains [] x) with false. rewrite andb_true_r. reflexivity.
+  - rewrite <- Eb in *. clear Eb. mask_cases m H; unfold selected; cbn [allow block]; sem; btaut.
+Qed.
+
+Lemma also_block_wf m b : mask_wf m -> tm_wf b -> mask_wf (also_block m b).
+Proof.
+  intros H Hb. unfold also_block. destruct (tm_is_empty b); [assumption|].
+  mask_cases m H; split; cbn [allow block owf]; wf.
+Qed.
+
+(* allowing more ids widens the allow list only: blocked ids stay blocked, and "all rows allowed" stays so *)
+Lemma also_allow_selected m a x : mask_wf m -> tm_wf a ->
+  selected (also_allow m a) x =
+  match allow m with
+  | None => selected m x
+  | Some ex => (tm_contains ex x || tm_contains a x)
+               && negb (match block m with Some b => tm_contains b x | None => false end)
+  end.
+Proof.
+  intros H Ha. mask_cases m H; unfold also_allow, selected; cbn [allow block]; sem; btaut.
+Qed.
+
+Lemma also_allow_wf m a : mask_wf m -> tm_wf a -> mask_wf (also_allow m a).
+Proof. intros H Ha. mask_cases m H; unfold also_allow; split; cbn [allow block owf]; wf. Qed.
+
+Lemma tm_mask_contains t m x : tm_wf t -> mask_wf m ->
+  tm_contains (tm_mask t m) x = tm_contains t x && selected m x.
+Proof.
+  intros Ht H. mask_cases m H; unfold tm_mask, selected; cbn [allow block]; sem; btaut.
+Qed.
+
+Lemma tm_mask_wf t m : tm_wf t -> mask_wf m -> tm_wf (tm_mask t m).
+Proof. intros Ht H. mask_cases m H; unfold tm_mask; cbn [allow block]; wf. Qed.
+
+Lemma sel_idx_spec m ids : forall i,
+  sel_idx m i ids = map (fun p => i + N.of_nat (fst p))
+                        (filter (fun p => selected m (snd p)) (combine (seq 0 (length ids)) ids)).
+Proof.
+  induction ids as [|x r IH]; intro i; [reflexivity|].
+  cbn [sel_idx length seq combine filter snd].
+  assert (Hshift : map (fun p => i + N.of_nat (fst p)) (filter (fun p => selected m (snd p)) (combine (seq 1 (length r)) r))
+                   = map (fun p => i + 1 + N.of_nat (fst p)) (filter (fun p => selected m (snd p)) (combine (seq 0 (length r)) r))).
+  { rewrite <- seq_shift. generalize (seq 0 (length r)) as s. clear IH.
+    induction r as [|y r' IHr]; intros [|n s]; cbn [map combine filter snd]; try reflexivity.
+    destruct (selected m y); cbn [map fst]; rewrite IHr; [f_equal; lia | reflexivity]. }
+  destruct (selected m x); cbn [map fst]; rewrite IH, Hshift; [f_equal; lia | reflexivity].
+Qed.
+
+(* ------------------------------------------------------------------------------------------ *)
+(* insert_range *)
+
+Definition ir_step (t : treemap) (sh sl en : N) : treemap * N :=
+  match aget sh t with
+  | None => let '(b, c) := bm_insert_range sl en bm_empty in (aput sh (Partial b) t, c)
+  | Some Full => (t, 0)
+  | Some (Partial b) => let '(b', c) := bm_insert_range sl en b in (aput sh (Partial b') t, c)
+  end.
+
+Lemma ir_step_has t sh sl en f o :
+  sel_has (aget f (fst (ir_step t sh sl en))) o =
+  sel_has (aget f t) o || ((f =? sh) && ((o <? two32) && ((sl <=? o) && (o <=? en)))).
+Proof.
+  unfold ir_step. destruct (aget sh t) as [[|b]|] eqn:E.
+  - cbn [fst]. destruct (N.eqb_spec f sh) as [->|]; [rewrite E; reflexivity | rewrite orb_false_r; reflexivity].
+  - destruct (bm_insert_range sl en b) as [b' c] eqn:Eb. cbn [fst]. rewrite aget_aput.
+    destruct (N.eqb_spec f sh) as [->|]; [|rewrite orb_false_r; reflexivity].
+    rewrite E. cbn [sel_has andb]. replace b' with (fst (bm_insert_range sl en b)) by (rewrite Eb; reflexivity).
+    apply bm_mem_insert_range.
+  - destruct (bm_insert_range sl en bm_empty) as [b' c] eqn:Eb. cbn [fst]. rewrite aget_aput.
+    destruct (N.eqb_spec f sh) as [->|]; [|rewrite orb_false_r; reflexivity].
+    rewrite E. cbn [sel_has andb]. replace b' with (fst (bm_insert_range sl en bm_empty)) by (rewrite Eb; reflexivity).
+    rewrite bm_mem_insert_range, bm_mem_empty. reflexivity.
+Qed.
+
+Lemma ir_step_wf t sh sl en : tm_wf t -> sh < two32 -> en < two32 -> tm_wf (fst (ir_step t sh sl en)).
+Proof.
+  intros Ht Hs He. unfold ir_step. destruct (aget sh t) as [[|b]|] eqn:E.
+  - exact Ht.
+  - destruct (bm_insert_range sl en b) as [b' c] eqn:Eb. cbn [fst]. apply tm_wf_aput; try assumption.
+    change (bm_wf b'). replace b' with (fst (bm_insert_range sl en b)) by (rewrite Eb; reflexivity).
+    apply bm_wf_insert_range; [assumption | apply (tm_wf_aget _ _ _ Ht E)].
+  - destruct (bm_insert_range sl en bm_empty) as [b' c] eqn:Eb. cbn [fst]. apply tm_wf_aput; try assumption.
+    change (bm_wf b'). replace b' with (fst (bm_insert_range sl en bm_empty)) by (rewrite Eb; reflexivity).
+    apply bm_wf_insert_range; [assumption | apply bm_wf_empty].
+Qed.
+
+Lemma ir_loop_unfold n t sh sl eh el count :
+  ir_loop n t sh sl eh el count =
+  let en := if sh =? eh then el else u32max in
+  let t' := fst (ir_step t sh sl en) in
+  let c := snd (ir_step t sh sl en) in
+  if two64 <=? count + c then Panic else
+  if sh =? eh then Ok (t', count + c) else
+  if two32 <=? sh + 1 then Panic else
+  match n with O => Err | S n' => ir_loop n' t' (sh + 1) 0 eh el (count + c) end.
+Proof.
+  destruct n; cbn [ir_loop]; unfold ir_step;
+    destruct (aget sh t) as [[|b]|];
+    try destruct (bm_insert_range sl (if sh =? eh then el else u32max) b);
+    try destruct (bm_insert_range sl (if sh =? eh then el else u32max) bm_empty); reflexivity.
+Qed.
+
+(* (sh,sl) <= (f,o) <= (eh,el) lexicographically *)
+Definition lex_in (sh sl f o eh el : N) : bool :=
+  ((sh <? f) || ((sh =? f) && (sl <=? o))) && ((f <? eh) || ((f =? eh) && (o <=? el))).
+
+Lemma ir_loop_spec n : forall t sh sl eh el count,
+  N.to_nat (eh - sh) = n -> sh <= eh -> eh < two32 -> el < two32 ->
+  ir_loop n t sh sl eh el count <> Err /\
+  forall t' c, ir_loop n t sh sl eh el count = Ok (t', c) ->
+    (tm_wf t -> tm_wf t') /\
+    forall f o, o < two32 -> sel_has (aget f t') o = sel_has (aget f t) o || lex_in sh sl f o eh el.
+Proof.
+  induction n as [|n IH]; intros t sh sl eh el count Hn Hle Heh Hel; rewrite ir_loop_unfold; cbv zeta.
+  - assert (sh = eh) by lia. subst eh. rewrite N.eqb_refl.
+    destruct (two64 <=? count + snd (ir_step t sh sl el)); [split; [discriminate | intros ? ? [=]]|].
+    split; [discriminate|]. intros t' c [= <- <-]. split.
+    + intro Ht. apply ir_step_wf; assumption.
+    + intros f o Ho. rewrite ir_step_has. unfold lex_in.
+      destruct (sel_has (aget f t) o); [reflexivity|]. cbn [orb]. lia.
+  - assert (Hlt : sh < eh) by lia.
+    destruct (N.eqb_spec sh eh) as [->|Hne]; [lia|].
+    destruct (two64 <=? count + snd (ir_step t sh sl u32max)); [split; [discriminate | intros ? ? [=]]|].
+    destruct (two32 <=? sh + 1) eqn:Eo; [lia|].
+    specialize (IH (fst (ir_step t sh sl u32max)) (sh + 1) 0 eh el (count + snd (ir_step t sh sl u32max))
+                   ltac:(lia) ltac:(lia) Heh Hel) as [IHe IHs].
+    split; [exact IHe|]. intros t' c Hok. destruct (IHs t' c Hok) as [Hwf Hhas]. split.
+    + intro Ht. apply Hwf. apply ir_step_wf; [assumption | lia | reflexivity].
+    + intros f o Ho. rewrite (Hhas f o Ho), ir_step_has. unfold lex_in, u32max.
+      destruct (sel_has (aget f t) o); [reflexivity|]. cbn [orb]. unfold two32 in *. lia.
+Qed.
+
+(* numeric order on u64 = lexicographic order on (hi32, lo32) *)
+Lemma lex_le a x : a < two64 -> x < two64 ->
+  ((hi32 a <? hi32 x) || ((hi32 a =? hi32 x) && (lo32 a <=? lo32 x))) = (a <=? x).
+Proof.
+  intros Ha Hx. pose proof (split64 a Ha). pose proof (split64 x Hx).
+  pose proof (lo32_lt a). pose proof (lo32_lt x). pose proof (hi32_lt a). pose proof (hi32_lt x).
+  revert H H0 H1 H2 H3 H4. generalize (hi32 a) (lo32 a) (hi32 x) (lo32 x). intros. unfold two32 in *. lia.
+Qed.
+
+Lemma pair_ltb_lt a b : a < two64 -> b < two64 ->
+  pair_ltb (hi32 a, lo32 a) (hi32 b, lo32 b) = (a <? b).
+Proof.
+  intros Ha Hb. unfold pair_ltb. cbn [fst snd].
+  pose proof (split64 a Ha). pose proof (split64 b Hb).
+  pose proof (lo32_lt a). pose proof (lo32_lt b). pose proof (hi32_lt a). pose proof (hi32_lt b).
+  revert H H0 H1 H2 H3 H4. generalize (hi32 a) (lo32 a) (hi32 b) (lo32 b). intros. unfold two32 in *. lia.
+Qed.
+
+Definition in_bounds (s e : bound) (x : N) : bool :=
+  match s with Incl a => a <=? x | Excl a => a <? x | Unb => true end
+  && match e with Incl b => x <=? b | Excl b => x <? b | Unb => true end.
+Definition bound_ok (b : bound) : Prop := match b with Incl a => a < two64 | Excl a => a < two64 | Unb => True end.
+
+(* first / last element of the range as insert_range computes them *)
+Definition ir_first (s : bound) : N :=
+  match s with Incl st => st | Excl st => if two64 <=? st + 1 then u64max else st + 1 | Unb => 0 end.
+Definition ir_last (e : bound) : option N :=
+  match e with Incl en => Some en | Excl en => if en =? 0 then None else Some (en - 1) | Unb => Some u64max end.
+Definition ir_excl_max (s : bound) : bool := match s with Excl st => st =? u64max | _ => false end.
+
+Lemma tm_insert_range_unfold s e t :
+  tm_insert_range s e t =
+  match ir_last e with
+  | None => Ok (t, 0)
+  | Some hi =>
+    let lo := ir_first s in
+    if pair_ltb (hi32 hi, lo32 hi) (hi32 lo, lo32 lo) || ir_excl_max s then Ok (t, 0)
+    else ir_loop (N.to_nat (hi32 hi - hi32 lo)) t (hi32 lo) (lo32 lo) (hi32 hi) (lo32 hi) 0
+  end.
+Proof.
+  unfold tm_insert_range, ir_last, ir_first, ir_excl_max.
+  destruct e as [en|en|]; [| destruct (en =? 0); [reflexivity|] |]; destruct s as [st|st|]; reflexivity.
+Qed.
+
+Lemma tm_insert_range_spec s e t : bound_ok s -> bound_ok e ->
+  tm_insert_range s e t <> Err /\
+  forall t' c, tm_insert_range s e t = Ok (t', c) ->
+    (tm_wf t -> tm_wf t') /\
+    forall x, x < two64 -> tm_contains t' x = tm_contains t x || in_bounds s e x.
+Proof.
+  intros Hs He. rewrite tm_insert_range_unfold.
+  assert (Hfirst : ir_first s < two64).
+  { destruct s as [st|st|]; cbn [ir_first bound_ok] in *; [assumption| |reflexivity].
+    destruct (two64 <=? st + 1) eqn:E; [reflexivity | lia]. }
+  destruct (ir_last e) as [hi|] eqn:El.
+  2:{ split; [discriminate|]. intros t' c [= <- <-]. split; [auto|]. intros x Hx.
+      destruct e as [en|en|]; cbn [ir_last] in El; try discriminate.
+      destruct (N.eqb_spec en 0) as [->|]; [|discriminate].
+      unfold in_bounds. replace (x <? 0) with false by lia. rewrite andb_false_r, orb_false_r. reflexivity. }
+  assert (Hlast : hi < two64).
+  { destruct e as [en|en|]; cbn [ir_last bound_ok] in *.
+    - injection El as <-. assumption.
+    - destruct (en =? 0); [discriminate|]. injection El as <-. lia.
+    - injection El as <-. reflexivity. }
+  cbv zeta. rewrite pair_ltb_lt by assumption.
+  (* in_bounds is "first <= x <= last" unless the excluded start is u64::MAX *)
+  assert (Hib : forall x, x < two64 ->
+            in_bounds s e x = negb (ir_excl_max s) && ((ir_first s <=? x) && (x <=? hi))).
+  { intros x Hx. unfold in_bounds, ir_excl_max, ir_first.
+    assert (Hend : match e with Incl b => x <=? b | Excl b => x <? b | Unb => true end = (x <=? hi)).
+    { destruct e as [en|en|]; cbn [ir_last] in El.
+      - injection El as <-. reflexivity.
+      - destruct (N.eqb_spec en 0); [discriminate|]. injection El as <-. lia.
+      - injection El as <-. unfold two64, u64max in *. lia. }
+    rewrite Hend. destruct s as [st|st|]; cbn [bound_ok] in Hs.
+    + reflexivity.
+    + destruct (two64 <=? st + 1) eqn:E; unfold u64max, two64 in *; lia.
+    + replace (0 <=? x) with true by lia. reflexivity. }
+  destruct ((hi <? ir_first s) || ir_excl_max s) eqn:Eempty.
+  - split; [discriminate|]. intros t' c [= <- <-]. split; [auto|]. intros x Hx. rewrite (Hib x Hx).
+    destruct (tm_contains t x); [reflexivity|]. cbn [orb].
+    destruct (ir_excl_max s); [reflexivity|]. cbn [negb andb]. rewrite orb_false_r in Eempty. lia.
+  - apply orb_false_iff in Eempty as [E1 E2].
+    pose proof (ir_loop_spec (N.to_nat (hi32 hi - hi32 (ir_first s))) t (hi32 (ir_first s)) (lo32 (ir_first s))
+                  (hi32 hi) (lo32 hi) 0 eq_refl) as Hloop.
+    assert (Hhl : hi32 (ir_first s) <= hi32 hi).
+    { pose proof (lex_le (ir_first s) hi Hfirst Hlast) as L. replace (ir_first s <=? hi) with true in L by lia.
+      apply orb_true_iff in L. lia. }
+    specialize (Hloop Hhl (hi32_lt hi) (lo32_lt hi)) as [Hne Hok].
+    split; [exact Hne|]. intros t' c Hr. destruct (Hok t' c Hr) as [Hwf Hhas]. split; [exact Hwf|].
+    intros x Hx. rewrite !tm_contains_has, (Hhas _ _ (lo32_lt x)), (Hib x Hx), E2. cbn [negb andb].
+    f_equal. unfold lex_in.
+    rewrite (lex_le (ir_first s) x Hfirst Hx).
+    pose proof (lex_le x hi Hx Hlast) as L2.
+    assert (Hsym : ((hi32 x <? hi32 hi) || ((hi32 x =? hi32 hi) && (lo32 x <=? lo32 hi))) = (x <=? hi)) by exact L2.
+    rewrite Hsym. reflexivity.
+Qed.
+
+(* ------------------------------------------------------------------------------------------ *)
+(* len / row_ids: the listed ids are exactly the members, in increasing order, and len counts them *)
+
+Lemma lsorted_app l1 l2 : lsorted l1 -> lsorted l2 -> (forall x y, In x l1 -> In y l2 -> x < y) -> lsorted (l1 ++ l2).
+Proof.
+  induction l1 as [|a r IH]; intros H1 H2 H; cbn [app]; [assumption|].
+  apply lsorted_cons_inv in H1 as [Hr Ha]. constructor.
+  - apply IH; [assumption | assumption | intros x y Hx Hy; apply H; [right|]; assumption].
+  - apply Forall_forall. intros y Hy. apply in_app_or in Hy as [Hy|Hy].
+    + rewrite Forall_forall in Ha. apply Ha; assumption.
+    + apply H; [left; reflexivity | assumption].
+Qed.
+
+Lemma lsorted_map_addr f l : lsorted l -> lsorted (map (addr f) l).
+Proof.
+  induction l as [|a r IH]; intro H; cbn [map]; [constructor|].
+  apply lsorted_cons_inv in H as [Hr Ha]. constructor; [apply IH; assumption|].
+  apply Forall_forall. intros y Hy. apply in_map_iff in Hy as [z [<- Hz]].
+  rewrite Forall_forall in Ha. specialize (Ha _ Hz). unfold addr. lia.
+Qed.
+
+(* the elements of a bitmap, listed *)
+Lemma bm_elems_spec b : bm_wf b ->
+  lsorted (bm_elems b) /\ Forall (fun x => x < two32) (bm_elems b) /\ forall y, lmem y (bm_elems b) = bm_mem b y.
+Proof.
+  destruct b as [l|l]; cbn [bm_wf bm_elems bm_mem]; intros [Hs Hb].
+  - split; [assumption|]. split; [assumption|]. intro y.
+    destruct (y <? two32) eqn:E; [reflexivity|]. cbn [andb].
+    apply lmem_false_notin. intro Hin. rewrite Forall_forall in Hb. specialize (Hb _ Hin). lia.
+  - split; [apply lsorted_filter, lsorted_nrange|]. split.
+    + apply Forall_filter. eapply Forall_impl; [|apply Forall_nrange]. intros a Ha. cbn in Ha. unfold u32max, two32 in *. lia.
+    + intro y. rewrite lmem_ldiff, lmem_nrange. unfold u32max, two32.
+      destruct (lmem y l); cbn [negb]; rewrite ?andb_false_r, ?andb_true_r; [reflexivity|]. lia.
+Qed.
+
+Lemma ldiff_nseq_length n : forall a l, lsorted l -> Forall (fun x => a <= x < a + N.of_nat n) l ->
+  (length (ldiff (nseq a n) l) + length l = n)%nat.
+Proof.
+  induction n as [|n IH]; intros a l Hs Hb.
+  - destruct l as [|x r]; [reflexivity|]. inversion Hb; subst. cbn in *. lia.
+  - cbn [nseq]. unfold ldiff. cbn [filter]. fold (ldiff (nseq (a + 1) n) l).
+    destruct (lmem a l) eqn:Ea; cbn [negb].
+    + (* a is the head of l *)
+      destruct l as [|x r]; [discriminate|].
+      apply lsorted_cons_inv in Hs as [Hr Hx]. inversion Hb as [|? ? Hxb Hrb]; subst.
+      assert (x = a).
+      { rewrite lmem_cons in Ea. apply orb_true_iff in Ea as [E|E]; [apply N.eqb_eq in E; congruence|].
+        apply lmem_In in E. rewrite Forall_forall in Hx. specialize (Hx _ E). lia. }
+      subst x.
+      assert (Hext : ldiff (nseq (a + 1) n) (a :: r) = ldiff (nseq (a + 1) n) r).
+      { unfold ldiff. apply filter_ext_in. intros y Hy. rewrite lmem_cons.
+        pose proof (Forall_nseq_ge (a + 1) n) as Hg. rewrite Forall_forall in Hg. specialize (Hg _ Hy).
+        destruct (N.eqb_spec y a); [lia | reflexivity]. }
+      rewrite Hext. cbn [length].
+      assert (IH' : (length (ldiff (nseq (a + 1) n) r) + length r = n)%nat).
+      { apply IH; [assumption|]. apply Forall_forall. intros z Hz. rewrite Forall_forall in Hx, Hrb.
+        specialize (Hx _ Hz). specialize (Hrb _ Hz). rewrite Nat2N.inj_succ in Hrb. lia. }
+      lia.
+    + cbn [length].
+      assert (IH' : (length (ldiff (nseq (a + 1) n) l) + length l = n)%nat).
+      { apply IH; [assumption|]. apply Forall_forall. intros z Hz. rewrite Forall_forall in Hb.
+        specialize (Hb _ Hz). rewrite Nat2N.inj_succ in Hb.
+        assert (z <> a). { intro; subst. apply lmem_false_notin in Ea. auto. }
+        lia. }
+      lia.
+Qed.
+
+Lemma bm_len_elems b : bm_wf b -> bm_len b = llen (bm_elems b).
+Proof.
+  destruct b as [l|l]; cbn [bm_wf bm_len bm_elems]; intros [Hs Hb]; [reflexivity|].
+  unfold llen, nrange. replace (u32max <? 0) with false by reflexivity.
+  replace (N.to_nat (u32max - 0 + 1)) with (N.to_nat two32) by reflexivity.
+  pose proof (ldiff_nseq_length (N.to_nat two32) 0 l Hs) as H.
+  rewrite N2Nat.id in H. specialize (H ltac:(eapply Forall_impl; [|exact Hb]; intros a Ha; cbn in Ha; lia)).
+  assert (E : N.of_nat (length (ldiff (nseq 0 (N.to_nat two32)) l)) + N.of_nat (length l) = two32).
+  { rewrite <- Nat2N.inj_add, H. apply N2Nat.id. }
+  lia.
+Qed.
+
+Definition entry_ids (e : N * sel) : list N :=
+  match snd e with Full => [] | Partial b => map (addr (fst e)) (bm_elems b) end.
+
+Lemma tm_row_ids_eq t : tm_row_ids t = if existsb (fun e => is_full (snd e)) t then None else Some (flat_map entry_ids t).
+Proof. reflexivity. Qed.
+
+Lemma tm_len_from_spec t : forall acc, tm_wf t ->
+  tm_len_from acc t = if existsb (fun e => is_full (snd e)) t then None else Some (acc + llen (flat_map entry_ids t)).
+Proof.
+  induction t as [|[f s] r IH]; intros acc Hw; cbn [tm_len_from existsb flat_map snd].
+  - unfold llen. cbn. rewrite N.add_0_r. reflexivity.
+  - apply tm_wf_tail in Hw as [Hr [[_ Hs] _]]. destruct s as [|b]; cbn [is_full orb]; [reflexivity|].
+    rewrite IH by assumption. destruct (existsb (fun e => is_full (snd e)) r); [reflexivity|].
+    f_equal. unfold entry_ids at 2. cbn [snd fst]. unfold llen. rewrite app_length, map_length, Nat2N.inj_add.
+    cbn [sel_wf snd] in Hs. rewrite (bm_len_elems b Hs). unfold llen. lia.
+Qed.
+
+Lemma In_aget {V} (t : list (N * V)) k v : lsorted (keys t) -> In (k, v) t -> aget k t = Some v.
+Proof.
+  unfold keys. induction t as [|[k0 v0] r IH]; cbn [map fst aget]; intros Hs Hin; [destruct Hin|].
+  apply lsorted_cons_inv in Hs as [Hr Hk]. destruct Hin as [E|Hin].
+  - inversion E; subst. rewrite N.eqb_refl. reflexivity.
+  - destruct (N.eqb_spec k k0) as [->|]; [|auto].
+    exfalso. rewrite Forall_forall in Hk. specialize (Hk k0 (in_map fst _ _ Hin)). cbn in Hk. lia.
+Qed.
+
+Lemma In_flat_entry_ids t x : In x (flat_map entry_ids t) <->
+  exists f b o, In (f, Partial b) t /\ In o (bm_elems b) /\ x = addr f o.
+Proof.
+  rewrite in_flat_map. split.
+  - intros [[f s] [He Hx]]. unfold entry_ids in Hx. cbn [fst snd] in Hx. destruct s as [|b]; [destruct Hx|].
+    apply in_map_iff in Hx as [o [<- Ho]]. exists f, b, o. auto.
+  - intros [f [b [o [He [Ho ->]]]]]. exists (f, Partial b). split; [assumption|].
+    unfold entry_ids. cbn [fst snd]. apply in_map. assumption.
+Qed.
+
+Lemma addr_parts f o : f < two32 -> o < two32 -> hi32 (addr f o) = f /\ lo32 (addr f o) = o /\ addr f o < two64.
+Proof.
+  intros Hf Ho. unfold hi32, lo32, wrap32, addr.
+  assert (E1 : (f * two32 + o) / two32 = f).
+  { rewrite N.add_comm. rewrite N.div_add by discriminate. rewrite N.div_small by assumption. reflexivity. }
+  assert (E2 : (f * two32 + o) mod two32 = o).
+  { rewrite N.add_comm. rewrite N.mod_add by discriminate. apply N.mod_small. assumption. }
+  rewrite E1, E2, (N.mod_small f) by assumption. split; [reflexivity|]. split; [reflexivity|].
+  unfold two32, two64 in *. nia.
+Qed.
+
+Lemma tm_row_ids_spec t ids : tm_wf t -> tm_row_ids t = Some ids ->
+  lsorted ids /\ tm_len t = Some (llen ids) /\
+  forall x, x < two64 -> (In x ids <-> tm_contains t x = true).
+Proof.
+  intros Hw. rewrite tm_row_ids_eq. unfold tm_len. rewrite (tm_len_from_spec t 0 Hw).
+  destruct (existsb (fun e => is_full (snd e)) t) eqn:Ef; [discriminate|]. intros [= <-].
+  split; [|split; [rewrite N.add_0_l; reflexivity|]].
+  - (* sorted *)
+    clear Ef. induction t as [|[f s] r IH]; [constructor|].
+    apply tm_wf_tail in Hw as Hw'. destruct Hw' as [Hr [[Hf Hs] _]]. cbn [flat_map].
+    apply lsorted_app; [| apply IH; assumption |].
+    + unfold entry_ids. cbn [fst snd]. destruct s as [|b]; [constructor|].
+      apply lsorted_map_addr. apply (bm_elems_spec b Hs).
+    + intros x y Hx Hy. unfold entry_ids in Hx. cbn [fst snd] in Hx, Hf, Hs. destruct s as [|b]; [destruct Hx|].
+      apply in_map_iff in Hx as [o [<- Ho]].
+      apply In_flat_entry_ids in Hy as [f' [b' [o' [He [Ho' ->]]]]].
+      destruct Hw as [Hks Hfa]. unfold keys in Hks. cbn [map fst] in Hks.
+      apply lsorted_cons_inv in Hks as [_ Hk]. rewrite Forall_forall in Hk.
+      specialize (Hk f' (in_map fst _ _ He)). cbn in Hk.
+      destruct (bm_elems_spec b Hs) as [_ [Hb _]]. rewrite Forall_forall in Hb. specialize (Hb _ Ho).
+      unfold addr. unfold two32 in *. nia.
+  - (* membership *)
+    intros x Hx. rewrite In_flat_entry_ids, tm_contains_has. split.
+    + intros [f [b [o [He [Ho ->]]]]].
+      destruct Hw as [Hks Hfa]. rewrite Forall_forall in Hfa. destruct (Hfa _ He) as [Hf Hb]. cbn [fst snd sel_wf] in Hf, Hb.
+      destruct (bm_elems_spec b Hb) as [_ [Hlt Hm]]. rewrite Forall_forall in Hlt. specialize (Hlt _ Ho).
+      destruct (addr_parts f o Hf Hlt) as [E1 [E2 _]]. rewrite E1, E2.
+      rewrite (In_aget t f (Partial b) Hks He). cbn [sel_has]. rewrite <- Hm. apply lmem_In. assumption.
+    + intro H. destruct (aget (hi32 x) t) as [[|b]|] eqn:E; cbn [sel_has] in H; try discriminate.
+      * exfalso. apply aget_In in E. assert (existsb (fun e => is_full (snd e)) t = true).
+        { apply existsb_exists. exists (hi32 x, Full). split; [assumption | reflexivity]. }
+        congruence.
+      * exists (hi32 x), b, (lo32 x). split; [apply aget_In; assumption|]. split.
+        -- destruct (tm_wf_aget _ _ _ Hw E) as [_ Hb]. apply lmem_In. rewrite (proj2 (proj2 (bm_elems_spec b Hb))). assumption.
+        -- unfold addr. apply split64. assumption.
+Qed.
+
+Lemma tm_len_none_iff t : tm_wf t -> (tm_len t = None <-> tm_row_ids t = None).
+Proof.
+  intro Hw. unfold tm_len. rewrite (tm_len_from_spec t 0 Hw), tm_row_ids_eq.
+  destruct (existsb (fun e => is_full (snd e)) t); split; intro H; try discriminate; reflexivity.
+Qed.
+
+(* iter_ids: the merge walk equals "allowed and not blocked" *)
+Lemma skip_lt_spec a bl : lsorted bl ->
+  lsorted (skip_lt a bl) /\ Forall (fun y => a <= y) (skip_lt a bl) /\
+  forall y, a <= y -> lmem y (skip_lt a bl) = lmem y bl.
+Proof.
+  induction bl as [|b r IH]; intro Hs; cbn [skip_lt].
+  - split; [constructor|]. split; [constructor | reflexivity].
+  - apply lsorted_cons_inv in Hs as Hs'. destruct Hs' as [Hr Hb].
+    destruct (b <? a) eqn:E.
+    + destruct (IH Hr) as [H1 [H2 H3]]. split; [assumption|]. split; [assumption|].
+      intros y Hy. rewrite H3 by assumption. rewrite lmem_cons. destruct (N.eqb_spec y b); [lia | reflexivity].
+    + split; [assumption|]. split; [|reflexivity].
+      constructor; [lia|]. eapply Forall_impl; [|exact Hb]. intros z Hz. cbn in Hz. lia.
+Qed.
+
+Lemma iter_merge_spec al : forall bl, lsorted al -> lsorted bl ->
+  iter_merge al bl = filter (fun a => negb (lmem a bl)) al.
+Proof.
+  induction al as [|a ar IH]; intros bl Ha Hb; cbn [iter_merge filter]; [reflexivity|].
+  apply lsorted_cons_inv in Ha as [Har Hgt].
+  destruct (skip_lt_spec a bl Hb) as [Hs' [Hge Hmem]].
+  assert (Hrest : iter_merge ar (skip_lt a bl) = filter (fun x => negb (lmem x bl)) ar).
+  { rewrite IH by assumption. apply filter_ext_in. intros x Hx. rewrite Hmem; [reflexivity|].
+    rewrite Forall_forall in Hgt. specialize (Hgt _ Hx). lia. }
+  rewrite <- (Hmem a (N.le_refl a)).
+  destruct (skip_lt a bl) as [|b r] eqn:Esk.
+  - cbn. rewrite Hrest. reflexivity.
+  - rewrite lmem_cons. destruct (N.eqb_spec b a) as [->|Hne].
+    + rewrite N.eqb_refl. cbn. exact Hrest.
+    + inversion Hge as [|? ? Hba Hrge]; subst.
+      apply lsorted_cons_inv in Hs' as [_ Hbr].
+      destruct (N.eqb_spec a b); [congruence|]. cbn [orb].
+      assert (lmem a r = false).
+      { apply lmem_false_notin. intro Hin. rewrite Forall_forall in Hbr. specialize (Hbr _ Hin). lia. }
+      rewrite H. cbn. rewrite Hrest. reflexivity.
+Qed.
+
+Lemma iter_ids_spec m ids : mask_wf m -> iter_ids m = Some ids ->
+  lsorted ids /\ forall x, x < two64 -> (In x ids <-> selected m x = true).
+Proof.
+  intro H. mask_cases m H; unfold iter_ids, selected; cbn [allow block]; try discriminate.
+  - destruct (tm_row_ids a) as [al|] eqn:Ea; [|discriminate].
+    destruct (tm_row_ids b) as [bl|] eqn:Eb; [|discriminate]. intros [= <-].
+    destruct (tm_row_ids_spec a al ltac:(assumption) Ea) as [Sa [_ Ma]].
+    destruct (tm_row_ids_spec b bl ltac:(assumption) Eb) as [Sb [_ Mb]].
+    rewrite iter_merge_spec by assumption. split; [apply lsorted_filter; assumption|].
+    intros x Hx. rewrite filter_In, (Ma x Hx), andb_true_iff.
+    split; intros [H1 H2]; (split; [assumption|]); apply negb_true_iff; apply negb_true_iff in H2.
+    + destruct (tm_contains b x) eqn:E; [|reflexivity]. apply (Mb x Hx) in E. apply lmem_In in E. congruence.
+    + apply lmem_false_notin. intro Hin. apply (Mb x Hx) in Hin. congruence.
+  - destruct (tm_row_ids a) as [al|] eqn:Ea; [|discriminate]. intros [= <-].
+    destruct (tm_row_ids_spec a al ltac:(assumption) Ea) as [Sa [_ Ma]]. split; assumption.
+Qed.
+
+Lemma max_len_spec m n : mask_wf m -> max_len m = Some n ->
+  exists a ids, allow m = Some a /\ tm_row_ids a = Some ids /\ n = llen ids.
+Proof.
+  intro H. mask_cases m H; unfold max_len; cbn [allow]; try discriminate; intro E;
+    destruct (tm_row_ids a) as [ids|] eqn:Er;
+    try (apply (tm_len_none_iff a ltac:(assumption)) in Er; congruence);
+    destruct (tm_row_ids_spec a ids ltac:(assumption) Er) as [_ [El _]]; exists a, ids;
+    (split; [reflexivity|]); (split; [exact Er|]); congruence.
+Qed.
+
+(* ------------------------------------------------------------------------------------------ *)
+(* serialization layout: deserialize (serialize t) = t, given a round-tripping roaring codec *)
+
+Lemma rd32_le32 x r : x < two32 -> rd32 (le32 x ++ r) = Some (x, r).
+Proof.
+  intro H. unfold le32. cbn [app rd32]. f_equal. f_equal. unfold two32 in H. lia.
+Qed.
+
+Section SerializeFacts.
+  Variable rb_ser : bitmap -> list N.
+  Variable rb_de : list N -> option bitmap.
+  Hypothesis rb_roundtrip : forall b, rb_de (rb_ser b) = Some b.
+  (* a serialized roaring bitmap is never empty (cookie + count: at least 8 bytes) and fits a u32 length *)
+  Hypothesis rb_size : forall b, 0 < llen (rb_ser b) < two32.
+
+  Lemma de_entries_ser t : forall rest acc, Forall (fun e => fst e < two32) t ->
+    de_entries rb_de (length t) (flat_map (ser_entry rb_ser) t ++ rest) acc =
+    Ok (fold_left (fun acc e => aput (fst e) (snd e) acc) t acc).
+  Proof.
+    induction t as [|[f s] r IH]; intros rest acc Hk; cbn [length flat_map fold_left de_entries]; [reflexivity|].
+    inversion Hk as [|? ? Hf Hr]; subst. cbn [fst] in Hf.
+    unfold ser_entry at 1. cbn [fst snd]. rewrite <- !app_assoc. rewrite rd32_le32 by assumption.
+    destruct s as [|b].
+    - rewrite rd32_le32 by reflexivity. cbn [N.eqb]. rewrite N.eqb_refl. apply IH. assumption.
+    - pose proof (rb_size b) as Hsz.
+      assert (Ew : wrap32 (llen (rb_ser b)) = llen (rb_ser b)) by (apply N.mod_small; lia).
+      rewrite Ew. rewrite <- !app_assoc. rewrite rd32_le32 by lia.
+      destruct (N.eqb_spec (llen (rb_ser b)) 0) as [E0|_]; [lia|].
+      assert (Elen : N.to_nat (llen (rb_ser b)) = length (rb_ser b)) by (unfold llen; apply Nat2N.id).
+      assert (Hlt : (llen (rb_ser b ++ flat_map (ser_entry rb_ser) r ++ rest) <? llen (rb_ser b)) = false).
+      { apply N.ltb_ge. unfold llen. rewrite app_length. lia. }
+      rewrite Hlt, Elen.
+      rewrite firstn_app, Nat.sub_diag, firstn_all, firstn_O, app_nil_r.
+      rewrite rb_roundtrip.
+      rewrite skipn_app, Nat.sub_diag, skipn_all, skipn_O. cbn [app].
+      apply IH. assumption.
+  Qed.
+
+  Lemma fold_aput_sorted (t : treemap) : forall acc,
+    lsorted (keys acc ++ keys t) -> fold_left (fun acc e => aput (fst e) (snd e) acc) t acc = acc ++ t.
+  Proof.
+    induction t as [|[f s] r IH]; intros acc Hs; cbn [fold_left]; [rewrite app_nil_r; reflexivity|].
+    cbn [fst snd].
+    assert (Eput : aput f s acc = acc ++ [(f, s)]).
+    { clear IH. unfold keys in Hs. cbn [map fst] in Hs.
+      induction acc as [|[k v] a IHa]; [reflexivity|]. cbn [map fst app] in Hs.
+      apply lsorted_cons_inv in Hs as [Ha Hk]. cbn [aput app].
+      assert (k < f). { rewrite Forall_forall in Hk. apply Hk. apply in_or_app. right. left. reflexivity. }
+      destruct (f <? k) eqn:E1; [lia|]. destruct (N.eqb_spec f k); [lia|]. rewrite IHa by assumption. reflexivity. }
+    rewrite Eput. rewrite IH.
+    - rewrite <- app_assoc. reflexivity.
+    - unfold keys in *. rewrite map_app. cbn [map fst]. rewrite <- app_assoc. exact Hs.
+  Qed.
+
+  Lemma tm_serialize_roundtrip (t : treemap) : tm_wf t -> llen t < two32 ->
+    tm_deserialize rb_de (tm_serialize rb_ser t) = Ok t.
+  Proof.
+    intros [Hs Hw] Hlen. unfold tm_deserialize, tm_serialize.
+    assert (Ew : wrap32 (llen t) = llen t) by (apply N.mod_small; assumption).
+    rewrite Ew. rewrite rd32_le32 by assumption. unfold llen at 1. rewrite Nat2N.id.
+    rewrite <- (app_nil_r (flat_map (ser_entry rb_ser) t)).
+    rewrite de_entries_ser.
+    - rewrite fold_aput_sorted; [reflexivity | exact Hs].
+    - eapply Forall_impl; [|exact Hw]. intros e [He _]. exact He.
+  Qed.
+
+  (* serialized_size is the number of bytes written *)
+  Lemma tm_serialized_size_spec (t : treemap) :
+    tm_serialized_size rb_ser t = llen (tm_serialize rb_ser t).
+  Proof.
+    unfold tm_serialized_size, tm_serialize.
+    assert (H : forall t acc, fold_left (fun size e => match snd e with
+                             | Partial b => size + 8 + llen (rb_ser b) | Full => size + 8 end) t acc
+                   = acc + llen (flat_map (ser_entry rb_ser) t)).
+    { clear t. induction t as [|[f s] r IH]; intro acc; cbn [fold_left flat_map snd].
+      - unfold llen. cbn. lia.
+      - rewrite IH. unfold llen. rewrite app_length. unfold ser_entry at 2. cbn [fst snd].
+        destruct s as [|b]; rewrite !app_length; cbn [le32 length]; lia. }
+    rewrite H. unfold llen. rewrite app_length. cbn [le32 length]. lia.
+  Qed.
+End SerializeFacts.
+
+(* ------------------------------------------------------------------------------------------ *)
+(* union_all and Extend<Self> *)
+
+Definition entry_has (x : N) (e : N * sel) : bool := (hi32 x =? fst e) && sel_has (Some (snd e)) (lo32 x).
+
+Lemma tm_contains_existsb t x : lsorted (keys t) -> tm_contains t x = existsb (entry_has x) t.
+Proof.
+  rewrite tm_contains_has. unfold keys. induction t as [|[f s] r IH]; cbn [map fst aget existsb]; intro Hs; [reflexivity|].
+  apply lsorted_cons_inv in Hs as [Hr Hk]. unfold entry_has at 1. cbn [fst snd].
+  destruct (N.eqb_spec (hi32 x) f) as [E|Hne]; cbn [andb orb]; [|apply IH; assumption].
+  assert (Hnone : existsb (entry_has x) r = false).
+  { apply not_true_is_false. intro Hex. apply existsb_exists in Hex as [[f' s'] [Hin He]].
+    unfold entry_has in He. cbn [fst] in He. apply andb_true_iff in He as [He _]. apply N.eqb_eq in He.
+    rewrite Forall_forall in Hk. specialize (Hk f' (in_map fst _ _ Hin)). cbn in Hk. lia. }
+  rewrite Hnone, orb_false_r. reflexivity.
+Qed.
+
+Definition ghas (acc : list (N * list sel)) (x : N) : bool :=
+  match aget (hi32 x) acc with None => false | Some l => existsb (fun s => sel_has (Some s) (lo32 x)) l end.
+
+Lemma ua_step_has acc e x : ghas (ua_step acc e) x = ghas acc x || entry_has x e.
+Proof.
+  unfold ghas, ua_step, entry_has. destruct (aget (fst e) acc) as [l|] eqn:E; rewrite aget_aput;
+    destruct (N.eqb_spec (hi32 x) (fst e)) as [Eq|Hne]; cbn [andb]; rewrite ?orb_false_r; try reflexivity.
+  - rewrite Eq, E. rewrite existsb_app. cbn [existsb]. rewrite orb_false_r. reflexivity.
+  - rewrite Eq, E. cbn [existsb]. rewrite orb_false_r. reflexivity.
+Qed.
+
+Lemma fold_ua_step_has m : forall acc x,
+  ghas (fold_left ua_step m acc) x = ghas acc x || existsb (entry_has x) m.
+Proof.
+  induction m as [|e r IH]; intros acc x; cbn [fold_left existsb]; [rewrite orb_false_r; reflexivity|].
+  rewrite IH, ua_step_has, orb_assoc. reflexivity.
+Qed.
+
+Lemma fold_maps_has maps : forall acc x, Forall tm_wf maps ->
+  ghas (fold_left (fun acc m => fold_left ua_step m acc) maps acc) x
+  = ghas acc x || existsb (fun m => tm_contains m x) maps.
+Proof.
+  induction maps as [|m r IH]; intros acc x Hw; cbn [fold_left existsb]; [rewrite orb_false_r; reflexivity|].
+  inversion Hw as [|? ? Hm Hr]; subst.
+  rewrite IH by assumption. rewrite fold_ua_step_has, (tm_contains_existsb m x) by (apply Hm).
+  rewrite orb_assoc. reflexivity.
+Qed.
+
+Lemma sel_union_all_has ss o :
+  sel_has (Some (sel_union_all ss)) o = existsb (fun s => sel_has (Some s) o) ss.
+Proof.
+  unfold sel_union_all. destruct (existsb is_full ss) eqn:Ef.
+  - cbn [sel_has]. symmetry. apply existsb_exists. apply existsb_exists in Ef as [s [Hin Hs]].
+    exists s. split; [assumption|]. destruct s; [reflexivity | discriminate].
+  - cbn [sel_has].
+    assert (H : forall ss acc, existsb is_full ss = false ->
+              bm_mem (fold_left (fun acc s => match s with Partial b => bm_union acc b | Full => acc end) ss acc) o
+              = bm_mem acc o || existsb (fun s => sel_has (Some s) o) ss).
+    { clear. induction ss as [|s r IH]; intros acc Hf; cbn [fold_left existsb]; [rewrite orb_false_r; reflexivity|].
+      cbn [existsb] in Hf. apply orb_false_iff in Hf as [Hs Hr]. destruct s as [|b]; [discriminate|].
+      rewrite IH by assumption. rewrite bm_mem_union. cbn [sel_has]. rewrite orb_assoc. reflexivity. }
+    rewrite H by assumption. rewrite bm_mem_empty. reflexivity.
+Qed.
+
+Lemma tm_union_all_contains maps x : Forall tm_wf maps ->
+  tm_contains (tm_union_all maps) x = existsb (fun m => tm_contains m x) maps.
+Proof.
+  intro Hw. rewrite tm_contains_has. unfold tm_union_all.
+  rewrite (aget_map (fun _ l => sel_union_all l)).
+  pose proof (fold_maps_has maps [] x Hw) as H. unfold ghas in H. cbn [aget] in H.
+  destruct (aget (hi32 x) (fold_left (fun acc m => fold_left ua_step m acc) maps [])) as [l|]; cbn [option_map].
+  - rewrite sel_union_all_has. exact H.
+  - exact H.
+Qed.
+
+Lemma tm_extend_maps_contains others : forall t x, Forall tm_wf others ->
+  tm_contains (tm_extend_maps t others) x = tm_contains t x || existsb (fun m => tm_contains m x) others.
+Proof.
+  unfold tm_extend_maps. induction others as [|o r IH]; intros t x Hw; cbn [fold_left existsb]; [rewrite orb_false_r; reflexivity|].
+  inversion Hw as [|? ? Ho Hr]; subst. rewrite IH by assumption.
+  change (fold_left or_step o t) with (tm_or t o). rewrite tm_or_contains by assumption. rewrite orb_assoc. reflexivity.
+Qed.
+
+(* ------------------------------------------------------------------------------------------ *)
+(* canonical form: no entry holds an empty bitmap; then is_empty() is set emptiness *)
+
+Definition tm_canon (t : treemap) : Prop := Forall (fun e => sel_nonempty (snd e) = true) t.
+
+Lemma canon_nil : tm_canon []. Proof. constructor. Qed.
+Lemma canon_aput k s t : sel_nonempty s = true -> tm_canon t -> tm_canon (aput k s t).
+Proof. intros Hs Ht. apply Forall_aput; assumption. Qed.
+Lemma canon_filter P t : tm_canon t -> tm_canon (filter P t).
+Proof. apply Forall_filter. Qed.
+Lemma canon_aget t k s : tm_canon t -> aget k t = Some s -> sel_nonempty s = true.
+Proof. intros Hc H. apply aget_In in H. unfold tm_canon in Hc. rewrite Forall_forall in Hc. apply (Hc _ H). Qed.
+
+Lemma bm_nonempty_of_mem b y : bm_wf b -> bm_mem b y = true -> bm_is_empty b = false.
+Proof.
+  intros Hw Hm. destruct (bm_is_empty b) eqn:E; [|reflexivity].
+  rewrite (proj1 (bm_is_empty_spec b Hw) E y) in Hm. discriminate.
+Qed.
+
+Lemma sorted_gap l : forall a, lsorted l -> Forall (fun x => a <= x < two32) l ->
+  a <= two32 -> N.of_nat (length l) < two32 - a -> exists y, a <= y < two32 /\ ~ In y l.
+Proof.
+  induction l as [|x r IH]; intros a Hs Hb Ha Hlen.
+  - exists a. split; [cbn in Hlen; lia | intros []].
+  - apply lsorted_cons_inv in Hs as [Hr Hx]. inversion Hb as [|? ? Hxb Hrb]; subst.
+    destruct (N.eq_dec x a) as [->|Hne].
+    + assert (Hrb' : Forall (fun z => a + 1 <= z < two32) r).
+      { apply Forall_forall. intros z Hz. rewrite Forall_forall in Hx, Hrb.
+        specialize (Hx _ Hz). specialize (Hrb _ Hz). lia. }
+      destruct (IH (a + 1) Hr Hrb' ltac:(lia) ltac:(cbn [length] in Hlen; lia)) as [y [Hy Hn]].
+      exists y. split; [lia|]. intros [E|Hin]; [lia | auto].
+    + exists a. split; [lia|]. intros [E|Hin]; [lia|].
+      rewrite Forall_forall in Hx. specialize (Hx _ Hin). lia.
+Qed.
+
+Lemma bm_nonempty_witness b : bm_wf b -> bm_is_empty b = false -> exists y, bm_mem b y = true.
+Proof.
+  destruct b as [l|l]; cbn [bm_wf bm_is_empty bm_mem]; intros [Hs Hb] He.
+  - destruct l as [|x r]; [discriminate|]. exists x. inversion Hb; subst.
+    rewrite lmem_cons, N.eqb_refl. cbn. apply andb_true_iff. split; [apply N.ltb_lt; assumption | reflexivity].
+  - apply N.eqb_neq in He. unfold llen in He.
+    assert (Hb0 : Forall (fun x => 0 <= x < two32) l) by (eapply Forall_impl; [|exact Hb]; intros a Ha; cbn in Ha; lia).
+    pose proof (lsorted_length_le l 0 two32 Hs Hb0 ltac:(lia)) as Hle.
+    destruct (sorted_gap l 0 Hs Hb0 ltac:(lia) ltac:(lia)) as [y [Hy Hn]].
+    exists y. apply lmem_false_notin in Hn. rewrite Hn. cbn. apply andb_true_iff. split; [apply N.ltb_lt; lia | reflexivity].
+Qed.
+
+Lemma tm_is_empty_spec t : tm_wf t -> tm_canon t ->
+  (tm_is_empty t = true <-> forall x, x < two64 -> tm_contains t x = false).
+Proof.
+  intros Hw Hc. destruct t as [|[f s] r]; cbn [tm_is_empty].
+  - split; [intros _ x _; reflexivity | reflexivity].
+  - split; [discriminate|]. intro H. exfalso.
+    apply tm_wf_tail in Hw as [_ [[Hf Hs] _]]. cbn [fst snd] in Hf, Hs.
+    inversion Hc as [|? ? Hne _]; subst. cbn [snd] in Hne.
+    assert (Hex : exists o, o < two32 /\ sel_has (Some s) o = true).
+    { destruct s as [|b]; [exists 0; split; reflexivity|].
+      cbn [sel_nonempty] in Hne. apply negb_true_iff in Hne.
+      destruct (bm_nonempty_witness b Hs Hne) as [y Hy]. exists y. split; [apply (bm_mem_lt b y Hy) | exact Hy]. }
+    destruct Hex as [o [Ho Hm]].
+    destruct (addr_parts f o Hf Ho) as [E1 [E2 E3]].
+    specialize (H (addr f o) E3). rewrite tm_contains_has, E1, E2 in H. cbn [aget] in H.
+    rewrite N.eqb_refl in H. congruence.
+Qed.
+
+(* ---- preservation ---- *)
+Lemma tm_insert_canon v t : tm_wf t -> tm_canon t -> tm_canon (fst (tm_insert v t)).
+Proof.
+  intros Hw Hc. unfold tm_insert.
+  assert (Hins : forall b, bm_wf b -> sel_nonempty (Partial (fst (bm_insert (lo32 v) b))) = true).
+  { intros b Hb. cbn [sel_nonempty]. apply negb_true_iff.
+    apply (bm_nonempty_of_mem _ (lo32 v)); [apply bm_wf_insert; [apply lo32_lt | exact Hb]|].
+    rewrite bm_mem_insert, N.eqb_refl. pose proof (lo32_lt v). replace (lo32 v <? two32) with true by lia. reflexivity. }
+  destruct (aget (hi32 v) t) as [[|b]|] eqn:E; cbn [fst].
+  - exact Hc.
+  - destruct (bm_insert (lo32 v) b) as [b' ch] eqn:Eb. cbn [fst]. apply canon_aput; [|exact Hc].
+    replace b' with (fst (bm_insert (lo32 v) b)) by (rewrite Eb; reflexivity).
+    apply Hins. apply (tm_wf_aget _ _ _ Hw E).
+  - apply canon_aput; [|exact Hc]. apply Hins. apply bm_wf_empty.
+Qed.
+
+Lemma tm_extend_canon vs : forall t, tm_wf t -> tm_canon t -> tm_canon (tm_extend t vs).
+Proof.
+  unfold tm_extend. induction vs as [|v r IH]; intros t Hw Hc; cbn [fold_left]; [exact Hc|].
+  rewrite extend_step_is_insert. apply IH; [apply tm_insert_wf | apply tm_insert_canon]; assumption.
+Qed.
+
+Lemma tm_remove_canon v t : tm_canon t -> tm_canon (fst (tm_remove v t)).
+Proof.
+  intro Hc. unfold tm_remove. destruct (aget (hi32 v) t) as [[|b]|] eqn:E; cbn [fst].
+  - apply canon_aput; [reflexivity | exact Hc].
+  - destruct (bm_remove (lo32 v) b) as [b' rm] eqn:Eb. destruct (bm_is_empty b') eqn:Em; cbn [fst].
+    + apply canon_filter. exact Hc.
+    + apply canon_aput; [cbn [sel_nonempty]; rewrite Em; reflexivity | exact Hc].
+  - exact Hc.
+Qed.
+
+Lemma or_step_canon acc k rs : tm_wf acc -> tm_canon acc -> sel_wf rs -> sel_nonempty rs = true ->
+  tm_canon (or_step acc (k, rs)).
+Proof.
+  intros Hw Hc Hrw Hrn. unfold or_step. destruct (aget k acc) as [[|lb]|] eqn:E.
+  - exact Hc.
+  - destruct rs as [|rb]; [apply canon_aput; [reflexivity | exact Hc]|].
+    apply canon_aput; [|exact Hc]. cbn [sel_nonempty]. apply negb_true_iff.
+    destruct (tm_wf_aget _ _ _ Hw E) as [_ Hlb]. cbn [sel_wf] in Hlb, Hrw.
+    pose proof (canon_aget _ _ _ Hc E) as Hln. cbn [sel_nonempty] in Hln. apply negb_true_iff in Hln.
+    destruct (bm_nonempty_witness lb Hlb Hln) as [y Hy].
+    apply (bm_nonempty_of_mem _ y); [apply bm_wf_union; assumption|]. rewrite bm_mem_union, Hy. reflexivity.
+  - apply canon_aput; assumption.
+Qed.
+
+Lemma tm_or_canon a b : tm_wf a -> tm_wf b -> tm_canon a -> tm_canon b -> tm_canon (tm_or a b).
+Proof.
+  intros Ha [_ Hb] Hca Hcb. unfold tm_or. revert a Ha Hca.
+  induction b as [|[k rs] r IH]; intros a Ha Hca; cbn [fold_left]; [exact Hca|].
+  inversion Hb as [|? ? [Hk Hrs] Hr]; subst. inversion Hcb as [|? ? Hn Hcr]; subst. cbn [fst snd] in *.
+  apply IH; try assumption; [apply or_step_wf | apply or_step_canon]; assumption.
+Qed.
+
+Lemma tm_and_canon a b : tm_canon (tm_and a b).
+Proof.
+  unfold tm_and, tm_canon. apply Forall_forall. intros e He. apply filter_In in He as [_ He]. exact He.
+Qed.
+
+(* subtraction: the only way to create an empty bitmap is Full minus a bitmap holding every offset *)
+Definition sub_bad (a : treemap) (e : N * sel) : bool :=
+  match aget (fst e) a, snd e with
+  | Some Full, Partial rb => bm_is_empty (bm_diff bm_full rb)
+  | _, _ => false
+  end.
+Definition Known_C21_full_minus_whole_bitmap (a b : treemap) : bool := existsb (sub_bad a) b.
+
+Lemma sub_step_canon acc k rs : tm_canon acc -> sub_bad acc (k, rs) = false -> tm_canon (sub_step acc (k, rs)).
+Proof.
+  intros Hc Hbad. unfold sub_step. unfold sub_bad in Hbad. cbn [fst snd] in Hbad.
+  destruct (aget k acc) as [[|lb]|] eqn:E.
+  - destruct rs as [|rb]; [apply canon_filter; exact Hc|].
+    apply canon_aput; [cbn [sel_nonempty]; rewrite Hbad; reflexivity | exact Hc].
+  - destruct rs as [|rb]; [apply canon_filter; exact Hc|]. cbv zeta.
+    destruct (bm_is_empty (bm_diff lb rb)) eqn:Em; [apply canon_filter; exact Hc|].
+    apply canon_aput; [cbn [sel_nonempty]; rewrite Em; reflexivity | exact Hc].
+  - exact Hc.
+Qed.
+
+Lemma tm_sub_canon a b : tm_wf b -> tm_canon a -> Known_C21_full_minus_whole_bitmap a b = false ->
+  tm_canon (tm_sub a b).
+Proof.
+  intros [Hs _] Hca. unfold tm_sub, Known_C21_full_minus_whole_bitmap. revert a Hca.
+  induction b as [|[k rs] r IH]; intros a Hca Hk; cbn [fold_left]; [exact Hca|].
+  cbn [existsb] in Hk. apply orb_false_iff in Hk as [Hk1 Hk2].
+  unfold keys in Hs. cbn [map fst] in Hs. apply lsorted_cons_inv in Hs as [Hr Hlt].
+  apply IH; [exact Hr | apply sub_step_canon; assumption|].
+  (* the other entries look at keys different from k, which sub_step left alone *)
+  apply not_true_is_false. intro Hex. apply existsb_exists in Hex as [[k' rs'] [Hin Hb]].
+  assert (Hne : k' <> k).
+  { rewrite Forall_forall in Hlt. specialize (Hlt k' (in_map fst _ _ Hin)). cbn in Hlt. lia. }
+  assert (Hsame : sub_bad a (k', rs') = true).
+  { unfold sub_bad in *. cbn [fst snd] in *. rewrite sub_step_get in Hb.
+    destruct (N.eqb_spec k' k); [congruence | exact Hb]. }
+  assert (existsb (sub_bad a) r = true) by (apply existsb_exists; exists (k', rs'); split; assumption).
+  congruence.
+Qed.
+
+(* insert_range never leaves an empty bitmap behind (F15: insert_range(5..5) used to) *)
+Lemma ir_step_canon t sh sl en : tm_wf t -> tm_canon t -> sl <= en -> en < two32 ->
+  tm_canon (fst (ir_step t sh sl en)).
+Proof.
+  intros Hw Hc Hle Hen. unfold ir_step.
+  assert (Hne : forall b, bm_wf b -> sel_nonempty (Partial (fst (bm_insert_range sl en b))) = true).
+  { intros b Hb. cbn [sel_nonempty]. apply negb_true_iff.
+    apply (bm_nonempty_of_mem _ sl); [apply bm_wf_insert_range; assumption|].
+    rewrite bm_mem_insert_range. replace (sl <? two32) with true by lia. replace (sl <=? sl) with true by lia.
+    replace (sl <=? en) with true by lia. apply orb_true_r. }
+  destruct (aget sh t) as [[|b]|] eqn:E.
+  - exact Hc.
+  - destruct (bm_insert_range sl en b) as [b' c] eqn:Eb. cbn [fst]. apply canon_aput; [|exact Hc].
+    replace b' with (fst (bm_insert_range sl en b)) by (rewrite Eb; reflexivity). apply Hne. apply (tm_wf_aget _ _ _ Hw E).
+  - destruct (bm_insert_range sl en bm_empty) as [b' c] eqn:Eb. cbn [fst]. apply canon_aput; [|exact Hc].
+    replace b' with (fst (bm_insert_range sl en bm_empty)) by (rewrite Eb; reflexivity). apply Hne. apply bm_wf_empty.
+Qed.
+
+Lemma ir_loop_canon n : forall t sh sl eh el count t' c,
+  N.to_nat (eh - sh) = n -> sh <= eh -> eh < two32 -> el < two32 -> sl < two32 -> (sh = eh -> sl <= el) ->
+  tm_wf t -> tm_canon t -> ir_loop n t sh sl eh el count = Ok (t', c) -> tm_canon t'.
+Proof.
+  induction n as [|n IH]; intros t sh sl eh el count t' c Hn Hle Heh Hel Hsl Hsame Hw Hc; rewrite ir_loop_unfold; cbv zeta.
+  - assert (sh = eh) by lia. subst eh. rewrite N.eqb_refl.
+    destruct (two64 <=? count + snd (ir_step t sh sl el)); [discriminate|]. intros [= <- <-].
+    apply ir_step_canon; auto.
+  - assert (Hlt : sh < eh) by lia. destruct (N.eqb_spec sh eh) as [->|Hne]; [lia|].
+    destruct (two64 <=? count + snd (ir_step t sh sl u32max)); [discriminate|].
+    destruct (two32 <=? sh + 1) eqn:Eo; [discriminate|].
+    apply IH; try assumption; try lia; try reflexivity.
+    + apply ir_step_wf; [assumption | lia | reflexivity].
+    + apply ir_step_canon; try assumption; unfold u32max, two32 in *; lia.
+Qed.
+
+Lemma tm_insert_range_canon s e t t' c : bound_ok s -> bound_ok e -> tm_wf t -> tm_canon t ->
+  tm_insert_range s e t = Ok (t', c) -> tm_canon t'.
+Proof.
+  intros Hs He Hw Hc. rewrite tm_insert_range_unfold.
+  assert (Hfirst : ir_first s < two64).
+  { destruct s as [st|st|]; cbn [ir_first bound_ok] in *; [assumption| |reflexivity].
+    destruct (two64 <=? st + 1) eqn:E; [reflexivity | lia]. }
+  destruct (ir_last e) as [hi|] eqn:El; [|intros [= <- <-]; exact Hc].
+  assert (Hlast : hi < two64).
+  { destruct e as [en|en|]; cbn [ir_last bound_ok] in *.
+    - injection El as <-. assumption.
+    - destruct (en =? 0); [discriminate|]. injection El as <-. lia.
+    - injection El as <-. reflexivity. }
+  cbv zeta. rewrite pair_ltb_lt by assumption.
+  destruct ((hi <? ir_first s) || ir_excl_max s) eqn:Eempty; [intros [= <- <-]; exact Hc|].
+  apply orb_false_iff in Eempty as [E1 E2].
+  pose proof (lex_le (ir_first s) hi Hfirst Hlast) as L. replace (ir_first s <=? hi) with true in L by lia.
+  intro Hr. eapply (ir_loop_canon _ t (hi32 (ir_first s)) (lo32 (ir_first s)) (hi32 hi) (lo32 hi) 0 t' c eq_refl);
+    try assumption; try apply hi32_lt; try apply lo32_lt.
+  - apply orb_true_iff in L. lia.
+  - intro E. rewrite E in L. rewrite N.ltb_irrefl, N.eqb_refl in L. cbn in L. lia.
+Qed.
